@@ -1,9 +1,15 @@
 (* Proofs about the chained hash tables: chains stay sorted and in their bucket, look-up finds
    exactly the stored keys (also after growth), no fault, no leak, clean allocation failure. *)
-Require Import List ZArith Bool Arith Lia Sorted Permutation.
+Require Import List ZArith NArith Bool Arith Lia Sorted Permutation.
 Import ListNotations.
 Require Import LV.Mem.Alloc LV.Mem.AllocProofs LV.Mem.PropList LV.Mem.PropListProofs LV.Mem.HashTab.
 Open Scope Z_scope.
+
+Lemma bucket_of_lt : forall hv len, (0 < len)%nat -> (bucket_of hv len < len)%nat.
+Proof.
+  intros hv len H; unfold bucket_of. destruct len as [|l]; [lia|].
+  assert (Hm : (hv mod N.of_nat (S l) < N.of_nat (S l))%N) by (apply N.mod_lt; lia). lia.
+Qed.
 
 (* ---------------------------------------------------------------- chains *)
 Definition klt (a b : node) : Prop := (nkey a < nkey b)%nat.
@@ -123,20 +129,49 @@ Definition nodes_blocks (l : list node) : list block_id := flat_map nblocks l.
 Definition hownedP (h : htab) (pend : list node) : list block_id :=
   vecl (hblk h) ++ nodes_blocks (pend ++ all_nodes h).
 
+Section Extra.
+(* blocks of the enclosing object that are live beside the table (the vnaproperty_map_t block of a
+   map; nothing for the parameter hash, which is embedded in the vnacal_new_t) *)
+Variable extra : list block_id.
+
 (* the table together with nodes that are detached from it at the moment (rehash in progress) *)
 Definition HInvP (h : htab) (pend : list node) (s : astate) : Prop :=
-  wf s /\ NoDup (hownedP h pend) /\ (forall x, In x (ids s) <-> In x (hownedP h pend)) /\
+  wf s /\ NoDup (extra ++ hownedP h pend) /\ (forall x, In x (ids s) <-> In x (extra ++ hownedP h pend)) /\
   ((0 < halloc h)%nat -> hblk h <> None).
 Definition HInv (h : htab) (s : astate) : Prop := HInvP h [] s.
+
+(* the table block is replaced (realloc) *)
+Lemma swap_vec_owned : forall (old : option block_id) (b : block_id) (nb idsS idsS1 : list block_id),
+  NoDup (extra ++ vecl old ++ nb) ->
+  (forall x, In x idsS <-> In x (extra ++ vecl old ++ nb)) ->
+  ~ In b idsS ->
+  (forall x, In x idsS1 <-> x = b \/ (In x idsS /\ Some x <> old)) ->
+  NoDup (extra ++ [b] ++ nb) /\ (forall x, In x idsS1 <-> In x (extra ++ [b] ++ nb)).
+Proof.
+  intros old b nb idsS idsS1 Hnd Hiff Hnb H1.
+  destruct (NoDup_app_inv _ _ Hnd) as [He [Hvn Hd1]]. destruct (NoDup_app_inv _ _ Hvn) as [Hv [Hn Hd2]].
+  assert (Hbe : ~ In b extra) by (intro Hx; apply Hnb, Hiff; apply in_or_app; left; exact Hx).
+  assert (Hbn : ~ In b nb) by (intro Hx; apply Hnb, Hiff; apply in_or_app; right; apply in_or_app; right; exact Hx).
+  split.
+  - apply NoDup_app_intro; [exact He | |].
+    + simpl. constructor; assumption.
+    + intros x Hx [Hb|Hin]; [subst x; contradiction | eapply Hd1; [exact Hx | apply in_or_app; right; exact Hin]].
+  - intro x; rewrite H1, Hiff, !in_app_iff; simpl. split.
+    + intros [Hx|[[Hx|[Hx|Hx]] Hne]]; [right; left; left; auto | left; exact Hx | | right; right; exact Hx].
+      exfalso; apply Hne. destruct old as [ob|]; simpl in Hx; [destruct Hx as [Hx|[]]; rewrite Hx; reflexivity | destruct Hx].
+    + intros [Hx|[[Hx|[]]|Hx]]; [right | left; auto | right].
+      * split; [left; exact Hx|]. intro Heq; subst old. eapply Hd1; [exact Hx | simpl; left; reflexivity].
+      * split; [right; right; exact Hx|]. intro Heq; subst old. eapply Hd2; [simpl; left; reflexivity | exact Hx].
+Qed.
 
 Lemma HInvP_perm : forall h pend s h' pend',
   HInvP h pend s -> hblk h' = hblk h -> halloc h' = halloc h ->
   Permutation (pend' ++ all_nodes h') (pend ++ all_nodes h) -> HInvP h' pend' s.
 Proof.
   intros h pend s h' pend' [Hw [Hnd [Hiff Hv]]] Hb Ha Hp. unfold HInvP, hownedP in *. rewrite Hb, Ha.
-  assert (Hpb : Permutation (vecl (hblk h) ++ nodes_blocks (pend' ++ all_nodes h'))
-                            (vecl (hblk h) ++ nodes_blocks (pend ++ all_nodes h))).
-  { apply Permutation_app_head. unfold nodes_blocks. apply Permutation_flat_map. exact Hp. }
+  assert (Hpb : Permutation (extra ++ vecl (hblk h) ++ nodes_blocks (pend' ++ all_nodes h'))
+                            (extra ++ vecl (hblk h) ++ nodes_blocks (pend ++ all_nodes h))).
+  { apply Permutation_app_head. apply Permutation_app_head. unfold nodes_blocks. apply Permutation_flat_map. exact Hp. }
   split; [assumption|]. split; [eapply Permutation_NoDup; [apply Permutation_sym; exact Hpb | assumption]|].
   split; [|assumption]. intro x; rewrite Hiff. split; intro Hx.
   - eapply Permutation_in; [apply Permutation_sym; exact Hpb | assumption].
@@ -155,7 +190,7 @@ Proof.
   intros h pend s i [Hw [Hnd [Hiff Hv]]] Hi; unfold bucket_access.
   destruct (hblk h) as [b|] eqn:Hb; [|exfalso; apply Hv; [lia | reflexivity]].
   assert (Hl : is_live b s = true).
-  { apply is_live_iff, Hiff. unfold hownedP; rewrite Hb; simpl; auto. }
+  { apply is_live_iff, Hiff. apply in_or_app; right. unfold hownedP; rewrite Hb; simpl; auto. }
   exists tt, s; split; auto. unfold bind, touch; rewrite Hl. unfold check_range, range_ok; simpl.
   replace (0 <=? Z.of_nat i) with true by (symmetry; apply Z.leb_le; lia).
   replace (Z.of_nat i + 1 <=? Z.of_nat (halloc h)) with true by (symmetry; apply Z.leb_le; lia). reflexivity.
@@ -173,7 +208,7 @@ Qed.
 
 (* ---------------------------------------------------------------- order and placement *)
 Section Functional.
-  Variable hf : nat -> nat.            (* the hash of a key: identity for parameters, crc32c for names *)
+  Variable hf : nat -> N.              (* the hash of a key: identity for parameters, crc32c for names *)
 
   Definition consistent (l : list node) : Prop := forall n, In n l -> nhash n = hf (nkey n).
   Definition distinct (l : list node) : Prop := NoDup (map nkey l).
@@ -203,7 +238,7 @@ Section Functional.
     TInv (set_bucket h i (chain_insert strict n (nth i (hbuckets h) []))) rest s lo old.
   Proof.
     intros strict h n rest s lo old [HI [HG [Hd Hc]]] Hpos i.
-    assert (Hi : (i < halloc h)%nat) by (unfold i, bucket_of; apply Nat.mod_upper_bound; lia).
+    assert (Hi : (i < halloc h)%nat) by (unfold i; apply bucket_of_lt; lia).
     assert (Hperm : Permutation (rest ++ all_nodes (set_bucket h i (chain_insert strict n (nth i (hbuckets h) []))))
                                 ((n :: rest) ++ all_nodes h)).
     { unfold all_nodes, set_bucket; simpl.
@@ -234,12 +269,12 @@ Section Functional.
     intros strict c; induction c as [|n rest IH]; intros h s lo old HT Hpos; simpl.
     - apply safe_ret. split; [reflexivity | split; [exact HT | split; [reflexivity | split; [reflexivity | split; [reflexivity | apply Permutation_refl]]]]].
     - pose proof HT as [HI _].
-      apply safe_bind. eapply safe_weaken; [eapply safe_bucket_access; [exact HI | unfold bucket_of; apply Nat.mod_upper_bound; lia]|].
+      apply safe_bind. eapply safe_weaken; [eapply safe_bucket_access; [exact HI | apply bucket_of_lt; lia]|].
       intros u s0 Hs0; simpl in Hs0; subst s0.
       pose proof (TInv_insert strict h n rest s lo old HT Hpos) as HT'. cbv zeta in HT'.
       eapply safe_weaken; [apply IH; [exact HT' | unfold halloc, set_bucket; simpl; rewrite length_upd'; exact Hpos]|].
       intros h' s' [Hs [HT2 [Ha [Hb [Hcn Hpm]]]]].
-      assert (Hi : (bucket_of (nhash n) (halloc h) < halloc h)%nat) by (unfold bucket_of; apply Nat.mod_upper_bound; lia).
+      assert (Hi : (bucket_of (nhash n) (halloc h) < halloc h)%nat) by (apply bucket_of_lt; lia).
       pose proof (set_bucket_insert_perm strict h n _ Hi) as Hp1.
       unfold halloc, set_bucket in Ha, Hb, Hcn; simpl in Ha, Hb, Hcn. rewrite length_upd' in Ha.
       split; [assumption | split; [assumption | split; [exact Ha | split; [exact Hb | split; [exact Hcn|]]]]].
@@ -288,7 +323,7 @@ Lemma nth_repeat_nil : forall (A : Type) n j, nth j (repeat (@nil A) n) [] = [].
 Proof. induction n; destruct j; simpl; auto. Qed.
 
 Section Tables.
-  Variable hf : nat -> nat.
+  Variable hf : nat -> N.
 
   Lemma all_nodes_bucket : forall h n, In n (all_nodes h) -> exists j, (j < halloc h)%nat /\ In n (nth j (hbuckets h) []).
   Proof.
@@ -306,11 +341,11 @@ Section Tables.
     safe (expand HFixed strict h new) s (fun r s' =>
       HInv (snd r) s' /\ FInv hf (snd r) /\ hcount (snd r) = hcount h /\
       Permutation (all_nodes (snd r)) (all_nodes h) /\
-      (fst r = true -> halloc (snd r) = new) /\ (fst r = false -> snd r = h)).
+      (fst r = true -> halloc (snd r) = new) /\ (fst r = false -> snd r = h /\ fail_at s = Some O /\ fail_at s' = None)).
   Proof.
     intros strict h s new HI [HG [Hd Hc]] Hnew; unfold expand. pose proof HI as [Hw [Hnd [Hiff Hv]]].
     apply safe_bind. eapply safe_weaken; [apply safe_realloc; [assumption|]|].
-    { intros b Hb. apply Hiff. unfold hownedP; rewrite Hb; simpl; auto. }
+    { intros b Hb. apply Hiff. apply in_or_app; right. unfold hownedP; rewrite Hb; simpl; auto. }
     intros [b|] s1 [Hw1 H1].
     - destruct H1 as [Hb [Hnb [_ Hi1]]].
       set (h0 := mkH (Some b) (hcount h) (hbuckets h ++ repeat [] (new - halloc h))).
@@ -321,15 +356,8 @@ Section Tables.
       assert (HT0 : TInv hf h0 [] s1 0 (halloc h)).
       { split; [|split; [|split]].
         - unfold HInvP, hownedP. simpl. rewrite Hall0. unfold hownedP in Hnd, Hiff. simpl in Hnd, Hiff.
-          split; [assumption|]. split; [|split; [|intros _; discriminate]].
-          + constructor.
-            * intro Hin. apply Hnb. apply Hiff. apply in_or_app; right; assumption.
-            * apply NoDup_app_inv in Hnd; tauto.
-          + intro x; rewrite Hi1; simpl. split.
-            * intros [Hx|[Hx Hne]]; [left; auto|]. apply Hiff in Hx. apply in_app_or in Hx. destruct Hx as [Hx|Hx]; [|right; assumption].
-              exfalso; apply Hne. destruct (hblk h) as [ob|]; simpl in Hx; [destruct Hx as [Hx|[]]; rewrite Hx; reflexivity | destruct Hx].
-            * intros [Hx|Hx]; [left; auto|]. right; split; [apply Hiff; apply in_or_app; right; assumption|].
-              intro He. destruct (NoDup_app_inv _ _ Hnd) as [_ [_ Hdis]]. apply (Hdis x); [rewrite <- He; simpl; auto | assumption].
+          destruct (swap_vec_owned (hblk h) b (nodes_blocks (all_nodes h)) (ids s) (ids s1) Hnd Hiff Hnb Hi1) as [Hnd1 Hiff1].
+          split; [assumption|]. split; [exact Hnd1|]. split; [exact Hiff1 | intros _; discriminate].
         - intros j Hj. rewrite Hlen0 in *. unfold h0; simpl.
           destruct (Nat.lt_ge_cases j (halloc h)) as [Hlt|Hge].
           + rewrite app_nth1 by (unfold halloc in Hlt; exact Hlt). destruct (HG j Hlt) as [Hs Hp]. split; auto.
@@ -341,9 +369,9 @@ Section Tables.
       intros h' s' [Hs' [[HI' [HG' [Hd' Hc']]] [Ha' [Hb' [Hcn' Hpm']]]]]. subst s'. apply safe_ret; cbn [fst snd].
       split; [exact HI'|]. split; [split; [eapply GInv_final; exact HG' | split; [exact Hd' | exact Hc']]|].
       split; [rewrite Hcn'; reflexivity|]. split; [rewrite <- Hall0; exact Hpm'|]. split; [intros _; congruence | discriminate].
-    - destruct H1 as [Hids _]. apply safe_ret; cbn [fst snd].
+    - destruct H1 as [Hids [_ [Hfa Hfa1]]]. apply safe_ret; cbn [fst snd].
       split; [eapply HInvP_ids_eq; eauto; intro x; rewrite Hids; tauto|].
-      split; [split; [assumption | split; assumption]|]. split; [reflexivity|]. split; [apply Permutation_refl|]. split; [discriminate | reflexivity].
+      split; [split; [assumption | split; assumption]|]. split; [reflexivity|]. split; [apply Permutation_refl|]. split; [discriminate | auto].
   Qed.
 
   (* look-up finds a node with the key iff one is stored *)
@@ -355,7 +383,7 @@ Section Tables.
       end).
   Proof.
     intros h s k HI [HG [Hd Hc]] Hpos; unfold table_lookup.
-    assert (Hi : (bucket_of (hf k) (halloc h) < halloc h)%nat) by (unfold bucket_of; apply Nat.mod_upper_bound; lia).
+    assert (Hi : (bucket_of (hf k) (halloc h) < halloc h)%nat) by (apply bucket_of_lt; lia).
     apply safe_bind. eapply safe_weaken; [eapply safe_bucket_access; [exact HI | exact Hi]|].
     intros u s0 Hs0; simpl in Hs0; subst s0. apply safe_ret. split; [reflexivity|].
     destruct (HG _ Hi) as [Hs Hp].
@@ -367,6 +395,7 @@ Section Tables.
       eapply chain_lookup_none; eauto.
   Qed.
 End Tables.
+End Extra.
 
 (* ---------------------------------------------------------------- releasing a table *)
 Lemma safe_free_blocks : forall l s, wf s -> NoDup l -> (forall x, In x l -> In x (ids s)) ->
@@ -433,40 +462,50 @@ Proof.
 Qed.
 
 Section Insert.
-  Variable hf : nat -> nat.
+  Variable extra : list block_id.
+  Variable hf : nat -> N.
 
   (* linking a freshly allocated node into the table *)
   Lemma safe_insert_new : forall strict h s0 s n,
-    HInv h s0 -> FInv hf h -> (0 < halloc h)%nat ->
+    HInv extra h s0 -> FInv hf h -> (0 < halloc h)%nat ->
     nhash n = hf (nkey n) -> (forall e, In e (all_nodes h) -> nkey e <> nkey n) ->
     wf s -> NoDup (nblocks n) -> (forall x, In x (nblocks n) -> ~ In x (ids s0)) ->
     (forall x, In x (ids s) <-> In x (nblocks n) \/ In x (ids s0)) ->
     safe (table_insert HFixed strict h n) s (fun h' s' =>
-      s' = s /\ HInv h' s /\ FInv hf h' /\ Permutation (all_nodes h') (n :: all_nodes h) /\
+      s' = s /\ HInv extra h' s /\ FInv hf h' /\ Permutation (all_nodes h') (n :: all_nodes h) /\
       halloc h' = halloc h /\ hblk h' = hblk h /\ hcount h' = hcount h).
   Proof.
     intros strict h s0 s n HI [HG [Hd Hc]] Hpos Hh Hnew Hw Hnb Hfresh Hids; unfold table_insert.
     pose proof HI as [Hw0 [Hnd0 [Hiff0 Hv0]]].
-    assert (HT : TInv hf h [n] s 0 0).
+    assert (HT : TInv extra hf h [n] s 0 0).
     { split; [|split; [|split]].
       - unfold HInvP, hownedP in *. simpl in *. unfold nodes_blocks in *. simpl.
         split; [assumption|]. split; [|split; [|assumption]].
-        + destruct (NoDup_app_inv _ _ Hnd0) as [Hv [Hb Hdv]].
+        + destruct (NoDup_app_inv _ _ Hnd0) as [He [Hvb Hde]].
+          destruct (NoDup_app_inv _ _ Hvb) as [Hv [Hb Hdv]].
+          assert (Hfr : forall x, In x (nblocks n) -> ~ In x (extra ++ vecl (hblk h) ++ flat_map nblocks (all_nodes h))).
+          { intros x Hx Hin. eapply Hfresh; [exact Hx|]. apply Hiff0. exact Hin. }
           apply NoDup_app_intro; [assumption | | ].
-          * apply NoDup_app_intro; [assumption | assumption |].
-            intros x Hx Hin. eapply Hfresh; eauto. apply Hiff0. apply in_or_app; right; assumption.
-          * intros x Hx Hin. apply in_app_or in Hin. destruct Hin as [Hin|Hin]; [|eapply Hdv; eauto].
-            eapply Hfresh; eauto. apply Hiff0. apply in_or_app; left; assumption.
+          * apply NoDup_app_intro; [assumption | |].
+            -- apply NoDup_app_intro; [assumption | assumption |].
+               intros x Hx Hin. eapply Hfr; [exact Hx|]. apply in_or_app; right; apply in_or_app; right; assumption.
+            -- intros x Hx Hin. apply in_app_or in Hin. destruct Hin as [Hin|Hin]; [|eapply Hdv; eauto].
+               eapply Hfr; [exact Hin|]. apply in_or_app; right; apply in_or_app; left; assumption.
+          * intros x Hx Hin. apply in_app_or in Hin. destruct Hin as [Hin|Hin].
+            -- eapply Hde; [exact Hx|]. apply in_or_app; left; exact Hin.
+            -- apply in_app_or in Hin. destruct Hin as [Hin|Hin].
+               ++ eapply Hfr; [exact Hin|]. apply in_or_app; left; exact Hx.
+               ++ eapply Hde; [exact Hx|]. apply in_or_app; right; exact Hin.
         + intro x; rewrite Hids, Hiff0, !in_app_iff. tauto.
       - exact HG.
       - unfold distinct in *. simpl. constructor; [|assumption].
         intro Hin. apply in_map_iff in Hin. destruct Hin as [e [He Hine]]. eapply Hnew; eauto.
       - intros x [Hx|Hx]; [subst; assumption | apply Hc; assumption]. }
-    assert (Hi : (bucket_of (nhash n) (halloc h) < halloc h)%nat) by (unfold bucket_of; apply Nat.mod_upper_bound; lia).
+    assert (Hi : (bucket_of (nhash n) (halloc h) < halloc h)%nat) by (apply bucket_of_lt; lia).
     pose proof HT as [HIP _].
     apply safe_bind. eapply safe_weaken; [eapply safe_bucket_access; [exact HIP | exact Hi]|].
     intros u s1 Hs1; simpl in Hs1; subst s1. apply safe_ret.
-    pose proof (TInv_insert hf strict h n [] s 0 0 HT Hpos) as [HI' [HG' [Hd' Hc']]]. cbv zeta in *.
+    pose proof (TInv_insert extra hf strict h n [] s 0 0 HT Hpos) as [HI' [HG' [Hd' Hc']]]. cbv zeta in *.
     split; [reflexivity|]. split; [exact HI'|]. split; [split; [exact HG' | split; [exact Hd' | exact Hc']]|].
     split; [apply set_bucket_insert_perm; exact Hi|].
     unfold halloc, set_bucket; simpl. rewrite length_upd'. auto.
@@ -474,12 +513,12 @@ Section Insert.
 End Insert.
 
 (* ---------------------------------------------------------------- the vnacal_new parameter hash *)
-Definition idf (k : nat) : nat := k.
+Definition idf (k : nat) : N := N.of_nat k.
 
-Definition PHInv (h : htab) (s : astate) : Prop := HInv h s /\ FInv idf h /\ (0 < halloc h)%nat.
+Definition PHInv (h : htab) (s : astate) : Prop := HInv [] h s /\ FInv idf h /\ (0 < halloc h)%nat.
 
-Lemma HInv_count : forall h s c, HInv h s -> HInv (mkH (hblk h) c (hbuckets h)) s.
-Proof. intros h s c H; exact H. Qed.
+Lemma HInv_count : forall extra h s c, HInv extra h s -> HInv extra (mkH (hblk h) c (hbuckets h)) s.
+Proof. intros extra h s c H; exact H. Qed.
 
 Lemma FInv_count : forall hf h c, FInv hf h -> FInv hf (mkH (hblk h) c (hbuckets h)).
 Proof. intros hf h c H; exact H. Qed.
@@ -494,45 +533,1055 @@ Proof.
   - eapply Permutation_in; [apply Permutation_map; apply Permutation_sym; exact Hp | exact H].
 Qed.
 
+(* what the operations do to the set of stored keys (the specification the table is checked
+   against): get finds a stored key or stores a new one (or fails with ENOMEM, nothing stored),
+   find answers exactly for the stored keys *)
+Definition same (a b : list nat) : Prop := forall x, In x a <-> In x b.
+
+Definition ph_spec (ks : list nat) (op : phop) (o : outcome) (ks' : list nat) : Prop :=
+  match op with
+  | PHGet p =>
+      (p < 0 /\ o = Err EINVAL /\ same ks' ks) \/
+      (0 <= p /\ In (Z.to_nat p) ks /\ o = Done /\ same ks' ks) \/
+      (0 <= p /\ ~ In (Z.to_nat p) ks /\
+         ((o = Done /\ same ks' (Z.to_nat p :: ks)) \/ (o = Err ENOMEM /\ same ks' ks)))
+  | PHFind p =>
+      same ks' ks /\
+      ((p < 0 /\ o = Err EINVAL) \/ (0 <= p /\ In (Z.to_nat p) ks /\ o = Done) \/
+       (0 <= p /\ ~ In (Z.to_nat p) ks /\ o = Err ENOENT))
+  end.
+
+Lemma same_refl : forall a, same a a.
+Proof. intros a x; tauto. Qed.
+
+Lemma lookup_key_cases : forall (h : htab) k (f : option node),
+  match f with
+  | Some n => In n (all_nodes h) /\ nkey n = k
+  | None => forall n, In n (all_nodes h) -> nkey n <> k
+  end ->
+  match f with Some _ => In k (all_keys h) | None => ~ In k (all_keys h) end.
+Proof.
+  intros h k [n|] H.
+  - destruct H as [Hin Hk]. unfold all_keys. rewrite <- Hk. apply in_map; assumption.
+  - intro Hin. unfold all_keys in Hin. apply in_map_iff in Hin. destruct Hin as [n [Hk Hn]]. exact (H n Hn Hk).
+Qed.
+
 Lemma safe_ph_get : forall h s p, PHInv h s ->
   safe (ph_get HFixed h p) s (fun r s' =>
-    PHInv (fst r) s' /\
-    match snd r with
-    | Done => 0 <= p /\ forall x, In x (all_keys (fst r)) <-> x = Z.to_nat p \/ In x (all_keys h)
-    | _ => forall x, In x (all_keys (fst r)) <-> In x (all_keys h)
-    end).
+    PHInv (fst r) s' /\ ph_spec (all_keys h) (PHGet p) (snd r) (all_keys (fst r)) /\
+    (snd r = Err ENOMEM -> fst r = h /\ fail_at s' = None)).
 Proof.
   intros h s p [HI [HF Hpos]]; unfold ph_get.
-  destruct (Z.ltb_spec p 0); [apply safe_ret; cbn [fst snd]; split; [split; auto | tauto]|].
+  destruct (Z.ltb_spec p 0).
+  { apply safe_ret; cbn [fst snd]. split; [split; auto|]. split; [left; split; [assumption | split; [reflexivity | apply same_refl]] | discriminate]. }
   set (k := Z.to_nat p).
-  apply safe_bind. eapply safe_weaken; [apply (safe_table_lookup idf h s k HI HF Hpos)|].
-  intros f s0 [Hs0 Hf]; subst s0. destruct f as [n|].
-  - apply safe_ret; cbn [fst snd]. split; [split; auto|]. split; [assumption|].
-    destruct Hf as [Hin Hk]. intro x; split; [auto | intros [Hx|Hx]; auto]. subst x. unfold all_keys. rewrite <- Hk. apply in_map; assumption.
+  apply safe_bind. eapply safe_weaken; [apply (safe_table_lookup [] idf h s k HI HF Hpos)|].
+  intros f s0 [Hs0 Hf]; subst s0. pose proof (lookup_key_cases h k f Hf) as Hk. destruct f as [n|].
+  - apply safe_ret; cbn [fst snd]. split; [split; auto|].
+    split; [right; left; split; [assumption | split; [exact Hk | split; [reflexivity | apply same_refl]]] | discriminate].
   - pose proof HI as [Hw _].
     apply safe_bind. eapply safe_weaken; [apply safe_malloc; assumption|].
     intros [b|] s1 [Hw1 H1].
     + destruct H1 as [Hb [Hnb [Hids1 _]]].
       apply safe_bind. unfold ph_insert.
-      apply safe_bind. eapply safe_weaken; [apply (safe_insert_new idf true h s s1 (mkN k k [b])); auto|].
+      apply safe_bind. eapply safe_weaken; [apply (safe_insert_new [] idf true h s s1 (mkN k (N.of_nat k) [b])); auto|].
       * simpl. repeat constructor; simpl; tauto.
       * simpl. intros x [Hx|[]]; subst; assumption.
       * intro x; rewrite Hids1; simpl; tauto.
       * intros h1 s2 [Hs2 [HI1 [HF1 [Hp1 [Ha1 [Hb1 Hc1]]]]]]. subst s2.
         set (h2 := mkH (hblk h1) (S (hcount h1)) (hbuckets h1)).
-        assert (HI2 : HInv h2 s1) by exact HI1. assert (HF2 : FInv idf h2) by exact HF1.
-        assert (Hk2 : forall x, In x (all_keys h2) <-> x = k \/ In x (all_keys h)).
+        assert (HI2 : HInv [] h2 s1) by exact HI1. assert (HF2 : FInv idf h2) by exact HF1.
+        assert (Hk2 : same (all_keys h2) (k :: all_keys h)).
         { intro x. unfold all_keys. change (all_nodes h2) with (all_nodes h1). rewrite (perm_keys _ _ Hp1). simpl. intuition. }
         destruct (halloc h2 <=? hcount h2)%nat.
-        -- apply safe_bind. eapply safe_weaken; [apply (safe_expand idf true h2 s1 _ HI2 HF2 (ph_new_alloc_gt _))|].
+        -- apply safe_bind. eapply safe_weaken; [apply (safe_expand [] idf true h2 s1 _ HI2 HF2 (ph_new_alloc_gt _))|].
            intros [ok h3] s3 [HI3 [HF3 [Hc3 [Hp3 [Hok Hfail]]]]]; cbn [fst snd] in *.
            apply safe_ret. apply safe_ret; cbn [fst snd].
            split; [split; [exact HI3 | split; [exact HF3|]]|].
-           ++ destruct ok; [rewrite (Hok eq_refl); pose proof (ph_new_alloc_gt (halloc h2)); lia | rewrite (Hfail eq_refl); unfold halloc, h2; simpl; fold (halloc h1); lia].
-           ++ split; [assumption|]. intro x. unfold all_keys. rewrite (perm_keys _ _ Hp3). apply Hk2.
+           ++ destruct ok; [rewrite (Hok eq_refl); pose proof (ph_new_alloc_gt (halloc h2)); lia | destruct (Hfail eq_refl) as [Hfh _]; rewrite Hfh; unfold halloc, h2; simpl; fold (halloc h1); lia].
+           ++ split; [|discriminate]. right; right. split; [assumption|]. split; [exact Hk|]. left. split; [reflexivity|].
+              intro x. unfold all_keys. rewrite (perm_keys _ _ Hp3). apply Hk2.
         -- apply safe_ret. apply safe_ret; cbn [fst snd].
            split; [split; [exact HI2 | split; [exact HF2 | unfold halloc, h2; simpl; fold (halloc h1); lia]]|].
-           split; [assumption | exact Hk2].
-    + destruct H1 as [Hids1 _]. apply safe_ret; cbn [fst snd].
-      split; [split; [eapply HInvP_ids_eq; eauto; intro x; rewrite Hids1; tauto | auto] | tauto].
+           split; [|discriminate]. right; right. split; [assumption|]. split; [exact Hk|]. left. split; [reflexivity | exact Hk2].
+    + destruct H1 as [Hids1 [_ [_ Hfa]]]. apply safe_ret; cbn [fst snd].
+      split; [split; [eapply HInvP_ids_eq; eauto; intro x; rewrite Hids1; tauto | auto]|].
+      split; [|intros _; split; [reflexivity | exact Hfa]].
+      right; right. split; [assumption|]. split; [exact Hk|]. right. split; [reflexivity | apply same_refl].
+Qed.
+
+Lemma safe_ph_find : forall h s p, PHInv h s ->
+  safe (ph_find h p) s (fun r s' =>
+    s' = s /\ fst r = h /\ ph_spec (all_keys h) (PHFind p) (snd r) (all_keys h) /\ snd r <> Err ENOMEM).
+Proof.
+  intros h s p [HI [HF Hpos]]; unfold ph_find.
+  destruct (Z.ltb_spec p 0).
+  { apply safe_ret; cbn [fst snd]. split; [reflexivity|]. split; [reflexivity|]. split; [|discriminate]. split; [apply same_refl | left; auto]. }
+  set (k := Z.to_nat p).
+  apply safe_bind. eapply safe_weaken; [apply (safe_table_lookup [] idf h s k HI HF Hpos)|].
+  intros f s0 [Hs0 Hf]; subst s0. pose proof (lookup_key_cases h k f Hf) as Hk. destruct f as [n|]; apply safe_ret; cbn [fst snd].
+  - split; [reflexivity|]. split; [reflexivity|]. split; [|discriminate]. split; [apply same_refl | right; left; auto].
+  - split; [reflexivity|]. split; [reflexivity|]. split; [|discriminate]. split; [apply same_refl | right; right; auto].
+Qed.
+
+(* one call, arbitrary state satisfying the invariant (so: every fault point) *)
+Lemma safe_phstep : forall h s op, PHInv h s ->
+  safe (phstep HFixed h op) s (fun r s' =>
+    PHInv (fst r) s' /\ ph_spec (all_keys h) op (snd r) (all_keys (fst r)) /\
+    (snd r = Err ENOMEM -> fst r = h /\ fail_at s' = None)).
+Proof.
+  intros h s [p|p] HP; simpl.
+  - apply safe_ph_get; assumption.
+  - eapply safe_weaken; [apply safe_ph_find; assumption|].
+    intros [h' o] s' [Hs [Hh [Hsp Hne]]]; cbn [fst snd] in *. subst s' h'. split; [assumption|]. split; [assumption | intro; contradiction].
+Qed.
+
+Fixpoint ph_spec_run (ks : list nat) (ops : list phop) (os : list outcome) : Prop :=
+  match ops, os with
+  | [], [] => True
+  | op :: ops', o :: os' => exists ks', ph_spec ks op o ks' /\ ph_spec_run ks' ops' os'
+  | _, _ => False
+  end.
+
+Lemma safe_phrun : forall ops h s, PHInv h s ->
+  safe (phrun HFixed h ops) s (fun r s' => PHInv (fst r) s' /\ ph_spec_run (all_keys h) ops (snd r)).
+Proof.
+  induction ops as [|op ops IH]; intros h s HP; simpl.
+  - apply safe_ret; cbn [fst snd]; auto.
+  - apply safe_bind. eapply safe_weaken; [apply safe_phstep; assumption|].
+    intros [h' o] s' [HP' [Hsp _]]; cbn [fst snd] in *.
+    apply safe_bind. eapply safe_weaken; [apply IH; exact HP'|].
+    intros [h'' os] s'' [HP'' Hrun]; cbn [fst snd] in *. apply safe_ret; cbn [fst snd].
+    split; [assumption|]. exists (all_keys h'); auto.
+Qed.
+
+Lemma all_nodes_empty : forall b c n, all_nodes (mkH b c (repeat [] n)) = [].
+Proof. intros; unfold all_nodes; simpl. apply concat_repeat_nil. Qed.
+
+(* _vnacal_new_init_parameter_hash *)
+Lemma safe_ph_init : forall s, wf s -> ids s = [] ->
+  safe ph_init s (fun r s' =>
+    match r with
+    | Some h => PHInv h s' /\ all_keys h = []
+    | None => fail_at s = Some O /\ live s' = []
+    end).
+Proof.
+  intros s Hw Hids; unfold ph_init.
+  assert (HI0 : HInv [] (mkH None 0 []) s).
+  { unfold HInv, HInvP, hownedP, all_nodes, halloc; simpl. split; [assumption|]. split; [constructor|]. split; [rewrite Hids; simpl; tauto | lia]. }
+  assert (HF0 : FInv idf (mkH None 0 [])).
+  { split; [|split].
+    - intros j Hj. unfold halloc in Hj; simpl in Hj; lia.
+    - unfold distinct, all_nodes; simpl; constructor.
+    - intros n Hn. unfold all_nodes in Hn; simpl in Hn; destruct Hn. }
+  apply safe_bind. eapply safe_weaken; [apply (safe_expand [] idf true _ s (ph_new_alloc 0) HI0 HF0); unfold halloc; simpl; apply ph_new_alloc_gt|].
+  intros [ok h] s' [HI [HF [Hc [Hp [Hok Hfail]]]]]; cbn [fst snd] in *.
+  destruct ok.
+  - apply safe_ret. split.
+    + split; [exact HI|]. split; [exact HF|]. rewrite (Hok eq_refl). pose proof (ph_new_alloc_gt 0); lia.
+    + unfold all_keys. apply Permutation_sym in Hp. unfold all_nodes at 1 in Hp; simpl in Hp. apply Permutation_nil in Hp. rewrite Hp; reflexivity.
+  - apply safe_ret. destruct (Hfail eq_refl) as [Hfh [Hfa _]]. rewrite Hfh in HI. destruct HI as [_ [_ [Hiff _]]].
+    split; [exact Hfa|].
+    + apply ids_nil_live_nil. intros x Hx. apply Hiff in Hx. unfold hownedP, all_nodes in Hx; simpl in Hx. exact Hx.
+Qed.
+
+(* ---------------------------------------------------------------- the fault countdown *)
+(* [NF m P]: run without a pending fault, m leaves no pending fault and its result satisfies P
+   (in particular: no request fails) *)
+Definition NF {A} (m : M A) (P : A -> Prop) : Prop :=
+  forall s a s', fail_at s = None -> m s = Ok (a, s') -> fail_at s' = None /\ P a.
+
+Lemma NF_ret : forall A (a : A) (P : A -> Prop), P a -> NF (ret a) P.
+Proof. intros A a P HP s a' s' Hf H; inversion H; subst; auto. Qed.
+
+Lemma NF_bind : forall A B (m : M A) (f : A -> M B) P Q,
+  NF m P -> (forall a, P a -> NF (f a) Q) -> NF (bind m f) Q.
+Proof.
+  intros A B m f P Q Hm Hf s b s' Hs H. unfold bind in H. destruct (m s) as [[a s1]|e] eqn:He; [|discriminate].
+  destruct (Hm s a s1 Hs He) as [Hs1 HP]. eapply Hf; eauto.
+Qed.
+
+Lemma NF_weaken : forall A (m : M A) (P Q : A -> Prop), NF m P -> (forall a, P a -> Q a) -> NF m Q.
+Proof. intros A m P Q H HPQ s a s' Hs He. destruct (H s a s' Hs He); auto. Qed.
+
+Lemma NF_malloc : forall sz, NF (malloc sz) (fun r => r <> None).
+Proof. intros sz s a s' Hs H; unfold malloc in H; rewrite Hs in H; inversion H; subst; simpl; split; [reflexivity | discriminate]. Qed.
+
+Lemma NF_realloc : forall p sz, NF (realloc p sz) (fun r => r <> None).
+Proof.
+  intros p sz s a s' Hs H; destruct p as [b|]; [|exact (NF_malloc sz s a s' Hs H)].
+  unfold realloc in H. destruct (is_live b s); [|discriminate]. rewrite Hs in H; inversion H; subst; simpl; split; [reflexivity | discriminate].
+Qed.
+
+Lemma NF_free : forall p, NF (free p) (fun _ => True).
+Proof.
+  intros p s a s' Hs H; destruct p as [b|]; simpl in H; [|inversion H; subst; auto].
+  unfold free in H. destruct (is_live b s); [|discriminate]. inversion H; subst; simpl; auto.
+Qed.
+
+Lemma NF_touch : forall p, NF (touch p) (fun _ => True).
+Proof.
+  intros p s a s' Hs H; destruct p as [b|]; simpl in H; [|discriminate].
+  unfold touch in H. destruct (is_live b s); [|discriminate]. inversion H; subst; auto.
+Qed.
+
+Lemma NF_check_range : forall lo n al, NF (check_range lo n al) (fun _ => True).
+Proof. intros lo n al s a s' Hs H; unfold check_range in H. destruct ((n =? 0) || range_ok lo n al); [|discriminate]. inversion H; subst; auto. Qed.
+
+Lemma NF_fail : forall A e (P : A -> Prop), NF (@fail A e) P.
+Proof. intros A e P s a s' _ H; discriminate H. Qed.
+
+Lemma NF_bucket_access : forall h i, NF (bucket_access h i) (fun _ => True).
+Proof. intros h i; unfold bucket_access. eapply NF_bind; [apply NF_touch | intros _ _; apply NF_check_range]. Qed.
+
+Lemma NF_table_insert : forall v strict h n, NF (table_insert v strict h n) (fun _ => True).
+Proof. intros; unfold table_insert. eapply NF_bind; [apply NF_bucket_access | intros _ _; apply NF_ret; exact I]. Qed.
+
+Lemma NF_rehash_chain : forall v strict c h, NF (rehash_chain v strict h c) (fun _ => True).
+Proof.
+  intros v strict c; induction c as [|n rest IH]; intro h; simpl; [apply NF_ret; exact I|].
+  eapply NF_bind; [apply NF_bucket_access | intros _ _; apply IH].
+Qed.
+
+Lemma NF_rehash_all : forall v strict idx h, NF (rehash_all v strict h idx) (fun _ => True).
+Proof.
+  intros v strict idx; induction idx as [|c rest IH]; intro h; simpl; [apply NF_ret; exact I|].
+  eapply NF_bind; [apply NF_bucket_access | intros _ _].
+  eapply NF_bind; [apply NF_rehash_chain | intros h' _; apply IH].
+Qed.
+
+Lemma NF_expand : forall v strict h new, NF (expand v strict h new) (fun r => fst r = true).
+Proof.
+  intros; unfold expand. eapply NF_bind; [apply NF_realloc|]. intros [b|] Hb; [|contradiction].
+  eapply NF_bind; [apply NF_rehash_all | intros h' _; apply NF_ret; reflexivity].
+Qed.
+
+Lemma NF_table_lookup : forall h hv k, NF (table_lookup h hv k) (fun _ => True).
+Proof. intros; unfold table_lookup. eapply NF_bind; [apply NF_bucket_access | intros _ _; apply NF_ret; exact I]. Qed.
+
+Lemma NF_free_blocks : forall l, NF (free_blocks l) (fun _ => True).
+Proof. induction l as [|b l IH]; simpl; [apply NF_ret; exact I | eapply NF_bind; [apply NF_free | intros _ _; exact IH]]. Qed.
+
+Lemma NF_ph_insert : forall v h n, NF (ph_insert v h n) (fun _ => True).
+Proof.
+  intros v h n; unfold ph_insert.
+  eapply NF_bind; [apply NF_table_insert|]. intros h1 _.
+  destruct (_ <=? _)%nat; [|apply NF_ret; exact I].
+  eapply NF_bind; [apply NF_expand | intros r _; apply NF_ret; exact I].
+Qed.
+
+Lemma NF_ph_get : forall v h p, NF (ph_get v h p) (fun r => snd r <> Err ENOMEM).
+Proof.
+  intros v h p; unfold ph_get. destruct (p <? 0); [apply NF_ret; discriminate|].
+  eapply NF_bind; [apply NF_table_lookup|]. intros [n|] _; [apply NF_ret; discriminate|].
+  eapply NF_bind; [apply NF_malloc|]. intros [b|] Hb; [|contradiction].
+  eapply NF_bind; [apply NF_ph_insert | intros h' _; apply NF_ret; discriminate].
+Qed.
+
+Lemma NF_ph_find : forall h p, NF (ph_find h p) (fun r => snd r <> Err ENOMEM).
+Proof.
+  intros h p; unfold ph_find. destruct (p <? 0); [apply NF_ret; discriminate|].
+  eapply NF_bind; [apply NF_table_lookup|]. intros [n|] _; apply NF_ret; discriminate.
+Qed.
+
+Lemma NF_phstep : forall v h op, NF (phstep v h op) (fun r => snd r <> Err ENOMEM).
+Proof. intros v h [p|p]; [apply NF_ph_get | apply NF_ph_find]. Qed.
+
+Lemma NF_phrun : forall v ops h, NF (phrun v h ops) (fun r => Forall (fun o => o <> Err ENOMEM) (snd r)).
+Proof.
+  intros v ops; induction ops as [|op rest IH]; intro h; simpl; [apply NF_ret; constructor|].
+  eapply NF_bind; [apply NF_phstep|]. intros [h' o] Ho; simpl in Ho.
+  eapply NF_bind; [apply IH|]. intros [h'' os] Hos; simpl in Hos. apply NF_ret; simpl. constructor; assumption.
+Qed.
+
+(* ---------------------------------------------------------------- parameter hash: whole histories *)
+Lemma phhistory_safe : forall ops k,
+  safe (phhistory HFixed ops) (start k) (fun os s' =>
+    live s' = [] /\ ((k = Some O /\ os = []) \/ ph_spec_run [] ops os)).
+Proof.
+  intros ops k; unfold phhistory.
+  apply safe_bind. eapply safe_weaken; [apply safe_ph_init; [apply wf_start | reflexivity]|].
+  intros [h|] s1 H1.
+  - destruct H1 as [HP Hk].
+    apply safe_bind. eapply safe_weaken; [apply safe_phrun; exact HP|].
+    intros [h' os] s2 [[HI [HF Hpos]] Hrun]; cbn [fst snd] in *. rewrite Hk in Hrun.
+    destruct HI as [Hw [Hnd [Hiff _]]].
+    apply safe_bind. eapply safe_weaken; [apply (safe_table_free h' s2 []); [exact Hw | exact Hnd | exact Hiff]|].
+    intros u s3 [Hw3 Hi3]. apply safe_ret. split; [|right; exact Hrun].
+    apply ids_nil_live_nil. intros x Hx. apply Hi3 in Hx. exact Hx.
+  - destruct H1 as [Hfa Hl]. apply safe_ret. split; [exact Hl | left; split; [exact Hfa | reflexivity]].
+Qed.
+
+Theorem ph_no_fault_lemma : forall ops k f, phhistory HFixed ops (start k) <> Fault f.
+Proof. intros ops k f H. destruct (phhistory_safe ops k) as [a [s' [He _]]]. rewrite He in H; discriminate. Qed.
+
+Theorem ph_no_leak_lemma : forall ops k os s', phhistory HFixed ops (start k) = Ok (os, s') -> live s' = [].
+Proof. intros ops k os s' H. destruct (phhistory_safe ops k) as [a [s2 [He [Hl _]]]]. rewrite He in H; inversion H; subst; assumption. Qed.
+
+(* look-up finds exactly the stored keys, in every history, with or without a failing request *)
+Theorem ph_lookup_exact_lemma : forall ops k os s', phhistory HFixed ops (start k) = Ok (os, s') ->
+  (k = Some O /\ os = []) \/ ph_spec_run [] ops os.
+Proof. intros ops k os s' H. destruct (phhistory_safe ops k) as [a [s2 [He [_ Hr]]]]. rewrite He in H; inversion H; subst; assumption. Qed.
+
+(* the fault-free run is a function of the op list *)
+Definition memb (k : nat) (ks : list nat) : bool := existsb (Nat.eqb k) ks.
+
+Lemma memb_in : forall k ks, memb k ks = true <-> In k ks.
+Proof.
+  intros k ks; unfold memb; rewrite existsb_exists; split.
+  - intros [x [Hx He]]; apply Nat.eqb_eq in He; subst; assumption.
+  - intro H; exists k; split; [assumption | apply Nat.eqb_refl].
+Qed.
+
+Fixpoint ph_fun (ks : list nat) (ops : list phop) : list outcome :=
+  match ops with
+  | [] => []
+  | PHGet p :: r =>
+      if p <? 0 then Err EINVAL :: ph_fun ks r
+      else if memb (Z.to_nat p) ks then Done :: ph_fun ks r
+      else Done :: ph_fun (Z.to_nat p :: ks) r
+  | PHFind p :: r =>
+      (if p <? 0 then Err EINVAL else if memb (Z.to_nat p) ks then Done else Err ENOENT) :: ph_fun ks r
+  end.
+
+Lemma memb_same : forall k a b, same a b -> memb k a = memb k b.
+Proof.
+  intros k a b H. destruct (memb k a) eqn:Ha; destruct (memb k b) eqn:Hb; auto.
+  - apply memb_in, H, memb_in in Ha; congruence.
+  - apply memb_in, H, memb_in in Hb; congruence.
+Qed.
+
+Lemma ph_spec_run_fun : forall ops ks ks0 os, same ks ks0 -> ph_spec_run ks ops os ->
+  Forall (fun o => o <> Err ENOMEM) os -> os = ph_fun ks0 ops.
+Proof.
+  induction ops as [|op ops IH]; intros ks ks0 os Hs Hrun Hne; destruct os as [|o os]; simpl in Hrun; try contradiction; [reflexivity|].
+  destruct Hrun as [ks' [Hsp Hrun]]. inversion Hne as [|? ? Ho Hos]; subst.
+  destruct op as [p|p]; simpl in *.
+  - destruct Hsp as [[Hp [Ho' Hk]]|[[Hp [Hin [Ho' Hk]]]|[Hp [Hnin [[Ho' Hk]|[Ho' Hk]]]]]].
+    + apply Z.ltb_lt in Hp; rewrite Hp. subst o. f_equal. apply (IH ks'); auto. intro x; rewrite (Hk x); apply Hs.
+    + assert (Hp' : p <? 0 = false) by (apply Z.ltb_ge; lia). rewrite Hp'.
+      assert (Hm : memb (Z.to_nat p) ks0 = true) by (apply memb_in, Hs; assumption). rewrite Hm.
+      subst o. f_equal. apply (IH ks'); auto. intro x; rewrite (Hk x); apply Hs.
+    + assert (Hp' : p <? 0 = false) by (apply Z.ltb_ge; lia). rewrite Hp'.
+      assert (Hm : memb (Z.to_nat p) ks0 = false).
+      { destruct (memb (Z.to_nat p) ks0) eqn:Hm; auto. apply memb_in, Hs in Hm; contradiction. }
+      rewrite Hm. subst o. f_equal. apply (IH ks'); auto. intro x; rewrite (Hk x); simpl. rewrite (Hs x); tauto.
+    + subst o; contradiction.
+  - destruct Hsp as [Hk Hsp]. f_equal.
+    + destruct Hsp as [[Hp Ho']|[[Hp [Hin Ho']]|[Hp [Hnin Ho']]]].
+      * apply Z.ltb_lt in Hp; rewrite Hp; assumption.
+      * assert (Hp' : p <? 0 = false) by (apply Z.ltb_ge; lia). rewrite Hp'.
+        assert (Hm : memb (Z.to_nat p) ks0 = true) by (apply memb_in, Hs; assumption). rewrite Hm; assumption.
+      * assert (Hp' : p <? 0 = false) by (apply Z.ltb_ge; lia). rewrite Hp'.
+        assert (Hm : memb (Z.to_nat p) ks0 = false).
+        { destruct (memb (Z.to_nat p) ks0) eqn:Hm; auto. apply memb_in, Hs in Hm; contradiction. }
+        rewrite Hm; assumption.
+    + apply (IH ks'); auto. intro x; rewrite (Hk x); apply Hs.
+Qed.
+
+Lemma NF_free_chain : forall c, NF (free_chain c) (fun _ => True).
+Proof. induction c as [|n c IH]; simpl; [apply NF_ret; exact I | eapply NF_bind; [apply NF_free_blocks | intros _ _; exact IH]]. Qed.
+
+Lemma NF_free_chains : forall l, NF (free_chains l) (fun _ => True).
+Proof. induction l as [|c l IH]; simpl; [apply NF_ret; exact I | eapply NF_bind; [apply NF_free_chain | intros _ _; exact IH]]. Qed.
+
+Lemma NF_table_free : forall h, NF (table_free h) (fun _ => True).
+Proof. intro h; unfold table_free. eapply NF_bind; [apply NF_free_chains | intros _ _; apply NF_free]. Qed.
+
+Lemma NF_ph_init : NF ph_init (fun r => r <> None).
+Proof.
+  unfold ph_init. eapply NF_bind; [apply NF_expand|]. intros [ok h] Hok; simpl in Hok; subst ok. apply NF_ret; discriminate.
+Qed.
+
+Lemma NF_phhistory : forall v ops, NF (phhistory v ops) (fun os => Forall (fun o => o <> Err ENOMEM) os).
+Proof.
+  intros v ops; unfold phhistory. eapply NF_bind; [apply NF_ph_init|]. intros [h|] Hh; [|contradiction].
+  eapply NF_bind; [apply NF_phrun|]. intros [h' os] Hos; simpl in Hos.
+  eapply NF_bind; [apply NF_table_free|]. intros _ _. apply NF_ret. assumption.
+Qed.
+
+Theorem ph_fault_free_exact_lemma : forall ops os s',
+  phhistory HFixed ops (start None) = Ok (os, s') -> os = ph_fun [] ops.
+Proof.
+  intros ops os s' H. destruct (NF_phhistory HFixed ops (start None) os s' eq_refl H) as [_ Hne].
+  destruct (ph_lookup_exact_lemma ops None os s' H) as [[Hk _]|Hrun]; [discriminate|].
+  eapply ph_spec_run_fun; [apply same_refl | exact Hrun | exact Hne].
+Qed.
+
+Lemma ph_fault_history_lemma : forall ops k os s',
+  phhistory HFixed ops (start (Some k)) = Ok (os, s') -> live s' = [].
+Proof. intros ops k; exact (ph_no_leak_lemma ops (Some k)). Qed.
+
+Lemma ph_fault_history_no_fault_lemma : forall ops k f, phhistory HFixed ops (start (Some k)) <> Fault f.
+Proof. intros ops k; exact (ph_no_fault_lemma ops (Some k)). Qed.
+
+(* one call with any fault point: clean failure, table unchanged, and the retry succeeds *)
+Theorem ph_fault_clean_lemma : forall op h s, PHInv h s ->
+  exists h' o s', phstep HFixed h op s = Ok ((h', o), s') /\ PHInv h' s' /\
+    ph_spec (all_keys h) op o (all_keys h') /\ (o = Err ENOMEM -> h' = h /\ fail_at s' = None).
+Proof.
+  intros op h s HP. destruct (safe_phstep h s op HP) as [[h' o] [s' [He [HP' [Hsp Hen]]]]]. exists h', o, s'; auto.
+Qed.
+
+Theorem ph_retry_lemma : forall h s p h' s', PHInv h s ->
+  ph_get HFixed h p s = Ok ((h', Err ENOMEM), s') ->
+  h' = h /\ exists h'' s'', ph_get HFixed h' p s' = Ok ((h'', Done), s'') /\ PHInv h'' s'' /\
+    same (all_keys h'') (Z.to_nat p :: all_keys h).
+Proof.
+  intros h s p h' s' HP H1.
+  destruct (safe_ph_get h s p HP) as [[h1 o1] [s1 [He [HP1 [Hsp1 Hen1]]]]]. rewrite He in H1; inversion H1; subst; clear H1.
+  cbn [fst snd] in *. destruct (Hen1 eq_refl) as [Hh Hfa]. subst h'. split; [reflexivity|].
+  assert (Hnin : 0 <= p /\ ~ In (Z.to_nat p) (all_keys h)).
+  { destruct Hsp1 as [[_ [Ho _]]|[[_ [_ [Ho _]]]|[Hp [Hn _]]]]; [discriminate | discriminate | auto]. }
+  destruct (safe_ph_get h s' p HP1) as [[h2 o2] [s2 [He2 [HP2 [Hsp2 _]]]]]. cbn [fst snd] in *.
+  destruct (NF_ph_get HFixed h p s' (h2, o2) s2 Hfa He2) as [_ Hne]; cbn [snd] in Hne.
+  destruct Hnin as [Hp Hn].
+  destruct Hsp2 as [[Hp2 _]|[[_ [Hin _]]|[_ [_ [[Ho Hk]|[Ho _]]]]]]; [lia | contradiction | | contradiction].
+  subst o2. exists h2, s2. auto.
+Qed.
+
+(* non-vacuity: a reachable table that has grown to 16 buckets and holds colliding keys *)
+Example PHInv_satisfiable : exists h s, PHInv h s /\ halloc h = 16%nat /\ hcount h = 9%nat /\
+  nth 0 (map (map nkey) (hbuckets h)) [] = [0; 16; 32]%nat.
+Proof.
+  destruct (safe_ph_init (start None) (wf_start None) eq_refl) as [[h0|] [s0 [He0 H0]]]; [|vm_compute in He0; discriminate].
+  destruct H0 as [HP0 _].
+  destruct (safe_phrun [PHGet 32; PHGet 16; PHGet 0; PHGet 8; PHGet 24; PHGet 1; PHGet 9; PHGet 17; PHGet 40; PHFind 16] h0 s0 HP0)
+    as [[h1 os] [s1 [He1 [HP1 _]]]].
+  vm_compute in He0. inversion He0; subst. vm_compute in He1. inversion He1; subst.
+  eexists; eexists; split; [exact HP1|]. vm_compute. auto.
+Qed.
+
+(* the bug shapes: with hash_insert pushing on the chain head, or hash_expand pushing rehashed nodes
+   on the chain head, the sorted-chain early exit of hash_lookup misses a stored key *)
+Theorem ph_head_insert_refuted_lemma : exists ops os s,
+  phhistory HHeadInsert ops (start None) = Ok (os, s) /\ os <> ph_fun [] ops.
+Proof. exists [PHGet 0; PHGet 8; PHFind 0]; eexists; eexists; split; [vm_compute; reflexivity | vm_compute; discriminate]. Qed.
+
+Theorem ph_rehash_head_refuted_lemma : exists ops os s,
+  phhistory HRehashHead ops (start None) = Ok (os, s) /\ os <> ph_fun [] ops.
+Proof.
+  exists [PHGet 3; PHGet 19; PHGet 4; PHGet 5; PHGet 6; PHGet 7; PHGet 9; PHGet 10; PHFind 3]; eexists; eexists;
+    split; [vm_compute; reflexivity | vm_compute; discriminate].
+Qed.
+
+(* ================================================================ the vnaproperty map *)
+Lemma table_lookup_eq : forall h hv k s r s', table_lookup h hv k s = Ok (r, s') ->
+  r = chain_lookup k (nth (bucket_of hv (halloc h)) (hbuckets h) []).
+Proof.
+  intros h hv k s r s' H. unfold table_lookup, bind in H.
+  destruct (bucket_access h (bucket_of hv (halloc h)) s) as [[u s1]|e]; [|discriminate].
+  unfold ret in H. inversion H; reflexivity.
+Qed.
+
+Lemma safe_free_fa : forall b s, wf s -> In b (ids s) ->
+  safe (free (Some b)) s (fun _ s' => wf s' /\ fail_at s' = fail_at s /\ (forall x, In x (ids s') <-> In x (ids s) /\ x <> b)).
+Proof.
+  intros b s Hwf Hin. destruct (free_spec b s Hwf Hin) as [s' [H [Hw [Hfa [_ Hi]]]]].
+  exists tt, s'; auto.
+Qed.
+
+Lemma NoDup_flat_map_in : forall (l : list node) n, NoDup (nodes_blocks l) -> In n l -> NoDup (nblocks n).
+Proof.
+  induction l as [|a l IH]; intros n Hnd Hin; [destruct Hin|]. unfold nodes_blocks in *; simpl in Hnd.
+  destruct (NoDup_app_inv _ _ Hnd) as [Ha [Hl _]]. destruct Hin as [He|Hin]; [subst; assumption | apply IH; assumption].
+Qed.
+
+Lemma nodes_blocks_in : forall (l : list node) n x, In n l -> In x (nblocks n) -> In x (nodes_blocks l).
+Proof. intros l n x Hn Hx. unfold nodes_blocks. apply in_flat_map. exists n; auto. Qed.
+
+Lemma nodes_blocks_disjoint : forall (l : list node) a b x, NoDup (nodes_blocks l) -> In a l -> In b l -> a <> b ->
+  In x (nblocks a) -> ~ In x (nblocks b).
+Proof.
+  induction l as [|c l IH]; intros a b x Hnd Ha Hb Hne Hxa Hxb; [destruct Ha|].
+  unfold nodes_blocks in Hnd; simpl in Hnd. destruct (NoDup_app_inv _ _ Hnd) as [Hc [Hl Hd]].
+  destruct Ha as [Ha|Ha], Hb as [Hb|Hb].
+  - subst; contradiction.
+  - subst c. eapply Hd; [exact Hxa | eapply nodes_blocks_in; eauto].
+  - subst c. eapply Hd; [exact Hxb | eapply nodes_blocks_in; eauto].
+  - eapply (IH a b x); eauto.
+Qed.
+
+(* vnaproperty_free of a map walks the order list *)
+Lemma safe_free_order : forall nodes order s,
+  wf s -> NoDup order -> (forall k, In k order -> In k (map nkey nodes)) ->
+  NoDup (map nkey nodes) -> NoDup (nodes_blocks nodes) ->
+  (forall n x, In n nodes -> In (nkey n) order -> In x (nblocks n) -> In x (ids s)) ->
+  safe (free_order order nodes) s (fun _ s' => wf s' /\
+    forall x, In x (ids s') <-> In x (ids s) /\ ~ (exists n, In n nodes /\ In (nkey n) order /\ In x (nblocks n))).
+Proof.
+  intros nodes order; induction order as [|k t IH]; intros s Hw Hnd Hsub Hkeys Hblocks Hlive; simpl.
+  - apply safe_ret. split; [assumption|]. intro x; split; [intro Hx; split; [assumption | intros [n [_ [[] _]]]] | tauto].
+  - inversion Hnd as [|? ? Hkt Hndt]; subst.
+    destruct (find (fun n => (nkey n =? k)%nat) nodes) as [n|] eqn:Hf.
+    + apply find_some in Hf. destruct Hf as [Hn Hk]. apply Nat.eqb_eq in Hk.
+      assert (Hndn : NoDup (rev (nblocks n))) by (apply NoDup_rev; eapply NoDup_flat_map_in; eauto).
+      apply safe_bind. eapply safe_weaken; [apply safe_free_blocks; [assumption | exact Hndn |]|].
+      { intros x Hx. apply in_rev in Hx. eapply Hlive; [exact Hn | left; auto | exact Hx]. }
+      intros u s1 [Hw1 Hi1].
+      eapply safe_weaken; [apply IH; [assumption | assumption | intros k' Hk'; apply Hsub; right; assumption | assumption | assumption |]|].
+      * intros n' x Hn' Hk' Hx. apply Hi1. split; [eapply Hlive; [exact Hn' | right; exact Hk' | exact Hx]|].
+        intro Hxr. apply in_rev in Hxr.
+        assert (Hne : n' <> n) by (intro; subst n'; rewrite Hk in Hk'; contradiction).
+        eapply (nodes_blocks_disjoint nodes n' n x); eauto.
+      * intros u2 s2 [Hw2 Hi2]. split; [assumption|]. intro x; rewrite Hi2, Hi1. split.
+        -- intros [[Hx Hnr] Hnt]. split; [assumption|]. intros [n' [Hn' [[Hk'|Hk'] Hx']]].
+           ++ assert (n' = n).
+              { clear - Hkeys Hn Hn' Hk Hk'. rewrite <- Hk in Hk'. revert Hkeys Hn Hn' Hk'. generalize nodes. induction nodes0 as [|a l IHl]; simpl; intros Hkeys Hn Hn' Hk'; [destruct Hn|].
+                inversion Hkeys as [|? ? Hna Hkl]; subst.
+                destruct Hn as [Hn|Hn], Hn' as [Hn'|Hn'].
+                - congruence.
+                - subst a. exfalso; apply Hna. rewrite Hk'. apply in_map; assumption.
+                - subst a. exfalso; apply Hna. rewrite <- Hk'. apply in_map; assumption.
+                - apply IHl; assumption. }
+              subst n'. apply Hnr. apply -> in_rev. exact Hx'.
+           ++ apply Hnt. exists n'; auto.
+        -- intros [Hx Hno]. split; [split; [assumption|]|].
+           ++ intro Hxr. apply in_rev in Hxr. apply Hno. exists n. split; [assumption | split; [left; auto | assumption]].
+           ++ intros [n' [Hn' [Hk' Hx']]]. apply Hno. exists n'. split; [assumption | split; [right; assumption | assumption]].
+    + exfalso. assert (Hin : In k (map nkey nodes)) by (apply Hsub; left; reflexivity).
+      apply in_map_iff in Hin. destruct Hin as [n [Hk Hn]].
+      apply (find_none _ _ Hf) in Hn. simpl in Hn. rewrite Hk, Nat.eqb_refl in Hn. discriminate.
+Qed.
+
+Lemma NoDup_remove_mid : forall (a b c : list block_id), NoDup (a ++ b ++ c) ->
+  NoDup (a ++ c) /\ (forall x, In x b -> ~ In x (a ++ c)).
+Proof.
+  intros a b c H. destruct (NoDup_app_inv _ _ H) as [Ha [Hbc Hd]]. destruct (NoDup_app_inv _ _ Hbc) as [Hb [Hc Hd2]].
+  split.
+  - apply NoDup_app_intro; auto. intros x Hx Hxc. eapply Hd; [exact Hx | apply in_or_app; right; exact Hxc].
+  - intros x Hx Hin. apply in_app_or in Hin. destruct Hin as [Hin|Hin].
+    + eapply Hd; [exact Hin | apply in_or_app; left; exact Hx].
+    + eapply Hd2; eauto.
+Qed.
+
+(* a detached node whose blocks have been released leaves the accounting *)
+Lemma HInvP_drop_pend : forall extra h n s s', HInvP extra h [n] s -> wf s' ->
+  (forall x, In x (ids s') <-> In x (ids s) /\ ~ In x (nblocks n)) -> HInvP extra h [] s'.
+Proof.
+  intros extra h n s s' [Hw [Hnd [Hiff Hv]]] Hw' Hi. unfold HInvP, hownedP in *. simpl in *.
+  unfold nodes_blocks in *. simpl in *.
+  assert (Hre : extra ++ vecl (hblk h) ++ nblocks n ++ flat_map nblocks (all_nodes h) =
+                (extra ++ vecl (hblk h)) ++ nblocks n ++ flat_map nblocks (all_nodes h)) by (rewrite app_assoc; reflexivity).
+  rewrite Hre in Hnd. destruct (NoDup_remove_mid _ _ _ Hnd) as [Hnd' Hdis]. rewrite <- app_assoc in Hnd'.
+  split; [assumption|]. split; [exact Hnd'|]. split; [|assumption].
+  intro x; rewrite Hi, Hiff, Hre. rewrite <- (app_assoc extra). rewrite !in_app_iff. split.
+  - intros [[Hx|[Hx|[Hx|Hx]]] Hn]; auto. contradiction.
+  - intro Hx. split; [tauto|]. intro Hn. apply (Hdis x Hn). rewrite !in_app_iff. tauto.
+Qed.
+
+Section MapProofs.
+  Variable hf : nat -> N.
+
+  Definition MInv (m : pmap) (s : astate) : Prop :=
+    HInv [mblk m] (mtab m) s /\ FInv hf (mtab m) /\ hcount (mtab m) = length (all_nodes (mtab m)) /\
+    Permutation (morder m) (all_keys (mtab m)).
+
+  Lemma MInv_order_nodup : forall m s, MInv m s -> NoDup (morder m).
+  Proof.
+    intros m s [_ [[_ [Hd _]] [_ Hp]]]. eapply Permutation_NoDup; [apply Permutation_sym; exact Hp | exact Hd].
+  Qed.
+
+  Lemma map_new_alloc_gt : forall h, (2 * halloc h <= hcount h + 1)%nat -> (halloc h < map_new_alloc (hcount h))%nat.
+  Proof. intros h H. unfold map_new_alloc. lia. Qed.
+
+  Lemma count_pos_alloc_pos : forall h, hcount h = length (all_nodes h) -> (0 < hcount h)%nat -> (0 < halloc h)%nat.
+  Proof.
+    intros h Hc Hp. unfold halloc. destruct (hbuckets h) as [|c l] eqn:Hb; [|simpl; lia].
+    unfold all_nodes in Hc; rewrite Hb in Hc; simpl in Hc. lia.
+  Qed.
+
+  (* the abstract effect of a call on the insertion-order list of keys *)
+  Inductive kop := KSet (k : nat) | KGet (k : nat) | KDel (k : nat) | KKeys.
+  Definition mop_of (o : kop) : mop :=
+    match o with KSet k => MSet k (hf k) | KGet k => MGet k (hf k) | KDel k => MDel k (hf k) | KKeys => MKeys end.
+
+  Definition m_spec (ord : list nat) (op : kop) (o : outcome) (ks : list nat) (ord' : list nat) : Prop :=
+    match op with
+    | KSet k => ks = [] /\
+        ((o = Err ENOMEM /\ ord' = ord) \/ (In k ord /\ o = Done /\ ord' = ord) \/ (~ In k ord /\ o = Done /\ ord' = ord ++ [k]))
+    | KGet k => ks = [] /\ ord' = ord /\
+        (o = Err ENOMEM \/ (In k ord /\ o = Done) \/ (~ In k ord /\ o = Err ENOENT))
+    | KDel k => ks = [] /\
+        ((In k ord /\ o = Done /\ ord' = remove Nat.eq_dec k ord) \/ (~ In k ord /\ o = Err ENOENT /\ ord' = ord))
+    | KKeys => ord' = ord /\ ((o = Done /\ ks = ord) \/ (o = Err ENOMEM /\ ks = []))
+    end.
+
+  Lemma in_order_keys : forall m s k, MInv m s -> (In k (morder m) <-> In k (all_keys (mtab m))).
+  Proof.
+    intros m s k [_ [_ [_ Hp]]]. split; intro H; [eapply Permutation_in; [exact Hp | exact H] | eapply Permutation_in; [apply Permutation_sym; exact Hp | exact H]].
+  Qed.
+
+  (* map_subtree *)
+  Lemma safe_map_subtree : forall m s add k, MInv m s ->
+    safe (map_subtree HFixed m add k (hf k)) s (fun r s' =>
+      MInv (fst r) s' /\ mblk (fst r) = mblk m /\
+      m_spec (morder m) (if add then KSet k else KGet k) (snd r) [] (morder (fst r)) /\
+      (snd r = Err ENOMEM -> fail_at s' = None /\ same (all_keys (mtab (fst r))) (all_keys (mtab m)))).
+  Proof.
+    intros m s add k HM. pose proof HM as [HI [HF [Hcnt Hord]]]. unfold map_subtree.
+    apply safe_bind.
+    (* the optional expansion *)
+    assert (Hexp : safe (if (2 * halloc (mtab m) <=? hcount (mtab m) + 1)%nat
+                         then expand HFixed false (mtab m) (map_new_alloc (hcount (mtab m))) else ret (true, mtab m)) s
+              (fun r s1 => HInv [mblk m] (snd r) s1 /\ FInv hf (snd r) /\ hcount (snd r) = hcount (mtab m) /\
+                 Permutation (all_nodes (snd r)) (all_nodes (mtab m)) /\
+                 (fst r = true -> (0 < halloc (snd r))%nat) /\ (fst r = false -> snd r = mtab m /\ fail_at s1 = None))).
+    { destruct (Nat.leb_spec (2 * halloc (mtab m)) (hcount (mtab m) + 1)) as [Hle|Hgt].
+      - eapply safe_weaken; [apply (safe_expand [mblk m] hf false (mtab m) s _ HI HF (map_new_alloc_gt _ Hle))|].
+        intros [ok h] s1 [HI1 [HF1 [Hc1 [Hp1 [Hok Hfail]]]]]; cbn [fst snd] in *.
+        split; [assumption|]. split; [assumption|]. split; [assumption|]. split; [assumption|]. split.
+        + intro He. rewrite (Hok He). unfold map_new_alloc. lia.
+        + intro He. destruct (Hfail He) as [Hh [_ Hfa]]. auto.
+      - apply safe_ret; cbn [fst snd]. split; [assumption|]. split; [assumption|]. split; [reflexivity|]. split; [apply Permutation_refl|].
+        split; [intros _; lia | discriminate]. }
+    eapply safe_weaken; [exact Hexp|]. clear Hexp.
+    intros [ok h] s1 [HI1 [HF1 [Hc1 [Hp1 [Hok Hfail]]]]]; cbn [fst snd] in *.
+    assert (Hk1 : same (all_keys h) (all_keys (mtab m))) by (intro x; unfold all_keys; apply perm_keys; exact Hp1).
+    assert (HM1 : MInv (mkM (mblk m) h (morder m)) s1).
+    { split; [exact HI1|]. split; [exact HF1|]. simpl. split; [rewrite Hc1, Hcnt; symmetry; apply Permutation_length; exact Hp1|].
+      eapply perm_trans; [exact Hord|]. unfold all_keys. apply Permutation_map. apply Permutation_sym; exact Hp1. }
+    destruct ok; simpl.
+    2:{ destruct (Hfail eq_refl) as [Hh Hfa]. apply safe_ret; cbn [fst snd].
+        split; [exact HM1|]. split; [reflexivity|]. split; [|intros _; split; [exact Hfa | exact Hk1]].
+        destruct add; simpl; [split; [reflexivity|]; left; auto | split; [reflexivity|]; split; [reflexivity|]; left; reflexivity]. }
+    pose proof (Hok eq_refl) as Hpos.
+    apply safe_bind. eapply safe_weaken; [apply (safe_table_lookup [mblk m] hf h s1 k HI1 HF1 Hpos)|].
+    intros f s0 [Hs0 Hf]; subst s0. pose proof (lookup_key_cases h k f Hf) as Hk.
+    assert (Hko : In k (morder m) <-> In k (all_keys h)).
+    { rewrite (Hk1 k). eapply in_order_keys; exact HM. }
+    destruct f as [n|].
+    - apply safe_ret; cbn [fst snd]. split; [exact HM1|]. split; [reflexivity|]. split; [|discriminate].
+      apply Hko in Hk. destruct add; simpl; [split; [reflexivity|]; right; left; auto | split; [reflexivity|]; split; [reflexivity|]; right; left; auto].
+    - assert (Hnk : ~ In k (morder m)) by (intro Hx; apply Hk, Hko, Hx).
+      destruct add; simpl.
+      2:{ apply safe_ret; cbn [fst snd]. split; [exact HM1|]. split; [reflexivity|]. split; [|discriminate].
+          split; [reflexivity|]; split; [reflexivity|]; right; right; auto. }
+      pose proof HI1 as [Hw1 _].
+      apply safe_bind. eapply safe_weaken; [apply safe_malloc; exact Hw1|].
+      intros [eb|] s2 [Hw2 H2].
+      2:{ destruct H2 as [Hids2 [_ [_ Hfa2]]]. apply safe_ret; cbn [fst snd].
+          split; [|split; [reflexivity|]; split; [split; [reflexivity|]; left; auto | intros _; split; [exact Hfa2 | exact Hk1]]].
+          destruct HM1 as [HIa HMr]. split; [|exact HMr]. eapply HInvP_ids_eq; [exact HIa | exact Hw2 | intro x; rewrite Hids2; tauto]. }
+      destruct H2 as [Heb [Hneb [Hids2 _]]].
+      apply safe_bind. eapply safe_weaken; [apply safe_malloc; exact Hw2|].
+      intros [sb|] s3 [Hw3 H3].
+      + destruct H3 as [Hsb [Hnsb [Hids3 _]]].
+        apply safe_bind. eapply safe_weaken; [apply (safe_insert_new [mblk m] hf false h s1 s3 (mkN k (hf k) [eb; sb])); auto|].
+        * simpl. constructor; [simpl; intros [Hx|[]]; apply Hnsb; rewrite Hids2, Hx; left; reflexivity | constructor; [simpl; tauto | constructor]].
+        * simpl. intros x [Hx|[Hx|[]]] Hin; [apply Hneb; rewrite Hx; exact Hin | apply Hnsb; rewrite Hids2, Hx; right; exact Hin].
+        * intro x; rewrite Hids3, Hids2; simpl. tauto.
+        * intros h1 s4 [Hs4 [HIn [HFn [Hpn [Han [Hbn Hcn]]]]]]. subst s4. apply safe_ret; cbn [fst snd].
+          split; [|split; [reflexivity|]; split; [split; [reflexivity|]; right; right; auto | discriminate]].
+          split; [exact HIn|]. split; [exact HFn|]. cbn [mtab morder]. split.
+          -- change (S (hcount h1) = length (all_nodes h1)).
+             rewrite Hcn, Hc1, Hcnt. rewrite (Permutation_length Hpn). simpl. rewrite (Permutation_length Hp1). reflexivity.
+          -- unfold all_keys. change (all_nodes {| hblk := hblk h1; hcount := S (hcount h1); hbuckets := hbuckets h1 |}) with (all_nodes h1).
+             eapply perm_trans; [|apply Permutation_map; apply Permutation_sym; exact Hpn]. simpl.
+             eapply perm_trans; [apply Permutation_app_comm|]. simpl. apply perm_skip.
+             eapply perm_trans; [exact Hord|]. apply Permutation_map. apply Permutation_sym; exact Hp1.
+      + destruct H3 as [Hids3 [_ [_ Hfa3]]].
+        apply safe_bind. eapply safe_weaken; [apply safe_free_fa; [exact Hw3 | rewrite Hids3, Hids2; left; reflexivity]|].
+        intros u s4 [Hw4 [Hfa4 Hi4]]. apply safe_ret; cbn [fst snd].
+        split; [|split; [reflexivity|]; split; [split; [reflexivity|]; left; auto | intros _; split; [rewrite Hfa4; exact Hfa3 | exact Hk1]]].
+        destruct HM1 as [HIa HMr]. split; [|exact HMr]. eapply HInvP_ids_eq; [exact HIa | exact Hw4|].
+        intro x; rewrite Hi4, Hids3, Hids2; simpl. split; [intros [[Hx|Hx] Hne]; [congruence | exact Hx] | intro Hx; split; [right; exact Hx | intro; subst x; contradiction]].
+  Qed.
+
+  Lemma remove_perm : forall (l l' : list nat) k, NoDup l -> Permutation l (k :: l') ->
+    Permutation (remove Nat.eq_dec k l) l'.
+  Proof.
+    intros l l' k Hnd Hp.
+    assert (Hin : In k l) by (eapply Permutation_in; [apply Permutation_sym; exact Hp | left; reflexivity]).
+    destruct (in_split _ _ Hin) as [l1 [l2 He]]. subst l.
+    assert (Hn : ~ In k (l1 ++ l2)) by (apply NoDup_remove_2; exact Hnd).
+    rewrite remove_app. simpl. destruct (Nat.eq_dec k k) as [_|Hne]; [|contradiction].
+    rewrite <- remove_app. rewrite notin_remove by exact Hn.
+    apply (Permutation_app_inv l1 l2 [] l' k). exact Hp.
+  Qed.
+
+  Lemma chain_remove_in : forall k c x, In x (chain_remove k c) -> In x c.
+  Proof.
+    induction c as [|e t IH]; simpl; intros x H; [destruct H|].
+    destruct (nkey e =? k)%nat; [right; assumption|]. destruct H; [left; assumption | right; auto].
+  Qed.
+
+  (* map_delete *)
+  Lemma safe_map_delete : forall m s k, MInv m s ->
+    safe (map_delete m k (hf k)) s (fun r s' =>
+      MInv (fst r) s' /\ mblk (fst r) = mblk m /\
+      m_spec (morder m) (KDel k) (snd r) [] (morder (fst r))).
+  Proof.
+    intros m s k HM. pose proof HM as [HI [HF [Hcnt Hord]]]. unfold map_delete.
+    destruct (Nat.eqb_spec (hcount (mtab m)) 0) as [Hz|Hnz].
+    { apply safe_ret; cbn [fst snd]. split; [exact HM|]. split; [reflexivity|]. split; [reflexivity|]. right.
+      split; [|auto]. intro Hin. apply (in_order_keys m s k HM) in Hin. unfold all_keys in Hin.
+      rewrite Hz in Hcnt. symmetry in Hcnt. apply length_zero_iff_nil in Hcnt. rewrite Hcnt in Hin. destruct Hin. }
+    assert (Hpos : (0 < halloc (mtab m))%nat) by (apply count_pos_alloc_pos; [exact Hcnt | lia]).
+    pose proof (MInv_order_nodup m s HM) as Hondup.
+    pose proof (in_order_keys m s k HM) as Hko.
+    set (h := mtab m) in *. set (i := bucket_of (hf k) (halloc h)).
+    assert (Hi : (i < halloc h)%nat) by (apply bucket_of_lt; exact Hpos).
+    destruct (safe_table_lookup [mblk m] hf h s k HI HF Hpos) as [f [s0 [Hlk [Hs0 Hf]]]]. subst s0.
+    pose proof (table_lookup_eq _ _ _ _ _ _ Hlk) as Hfe. fold i in Hfe.
+    pose proof (lookup_key_cases h k f Hf) as Hk.
+    apply safe_bind. exists f, s. split; [exact Hlk|].
+    destruct f as [n|].
+    - destruct Hf as [Hnin Hnk].
+      pose proof (chain_remove_perm k _ n (eq_sym Hfe)) as Hcp.
+      set (h' := mkH (hblk h) (pred (hcount h)) (upd (hbuckets h) i (chain_remove k (nth i (hbuckets h) [])))).
+      assert (Hpn : Permutation (all_nodes h) (n :: all_nodes h')).
+      { unfold all_nodes, h'; simpl.
+        destruct (concat_upd_split (hbuckets h) i (chain_remove k (nth i (hbuckets h) [])) Hi) as [H1 H2].
+        eapply perm_trans; [exact H2|]. eapply perm_trans; [apply Permutation_app_tail; exact Hcp|]. simpl. apply perm_skip.
+        apply Permutation_sym. exact H1. }
+      assert (Hal : halloc h' = halloc h) by (unfold halloc, h'; simpl; apply length_upd').
+      assert (HIp : HInvP [mblk m] h' [n] s).
+      { eapply HInvP_perm; [exact HI | reflexivity | exact Hal | simpl; apply Permutation_sym; exact Hpn]. }
+      pose proof HIp as [Hw [Hnd [Hiff _]]].
+      assert (Hndn : NoDup (nblocks n)).
+      { unfold hownedP, nodes_blocks in Hnd. simpl in Hnd. inversion Hnd as [|? ? _ Hx]; subst.
+        destruct (NoDup_app_inv _ _ Hx) as [_ [Hy _]]. destruct (NoDup_app_inv _ _ Hy) as [Hz _]. exact Hz. }
+      apply safe_bind. eapply safe_weaken; [apply safe_free_blocks; [exact Hw | apply NoDup_rev; exact Hndn |]|].
+      { intros x Hx. apply in_rev in Hx. apply Hiff. apply in_or_app; right. unfold hownedP. apply in_or_app; right.
+        unfold nodes_blocks; simpl. apply in_or_app; left; exact Hx. }
+      intros u s1 [Hw1 Hi1]. apply safe_ret; cbn [fst snd].
+      destruct HF as [HG [Hd Hc]].
+      assert (Hd' : NoDup (map nkey (n :: all_nodes h'))).
+      { eapply Permutation_NoDup; [apply Permutation_map; exact Hpn | exact Hd]. }
+      split; [|split; [reflexivity|]; split; [reflexivity|]; left; split; [apply Hko; exact Hk | auto]].
+      split; [|split; [|split]]; cbn [mtab morder mblk].
+      + eapply HInvP_drop_pend; [exact HIp | exact Hw1|]. intro x; rewrite Hi1, <- in_rev; tauto.
+      + split; [|split].
+        * intros j Hj. rewrite Hal in *. unfold h'; cbn [hbuckets].
+          destruct (Nat.eq_dec j i) as [He|Hne].
+          -- subst j. rewrite nth_upd_same' by exact Hi. destruct (HG i Hi) as [Hs Hp]. split.
+             ++ apply chain_remove_sorted; exact Hs.
+             ++ intros x Hx. apply Hp. eapply chain_remove_in; exact Hx.
+          -- rewrite nth_upd_other' by auto. apply HG; exact Hj.
+        * unfold distinct. simpl in Hd'. inversion Hd'; assumption.
+        * intros x Hx. apply Hc. eapply Permutation_in; [apply Permutation_sym; exact Hpn | right; exact Hx].
+      + unfold h' at 1; cbn [hcount]. rewrite Hcnt. rewrite (Permutation_length Hpn). reflexivity.
+      + apply remove_perm; [exact Hondup|].
+        eapply perm_trans; [exact Hord|]. unfold all_keys. rewrite <- Hnk. change (nkey n :: map nkey (all_nodes h')) with (map nkey (n :: all_nodes h')).
+        apply Permutation_map; exact Hpn.
+    - apply safe_ret; cbn [fst snd]. split; [exact HM|]. split; [reflexivity|]. split; [reflexivity|]. right.
+      split; [|auto]. intro Hin. apply Hk. apply Hko; exact Hin.
+  Qed.
+
+  (* vnaproperty_vkeys on the map *)
+  Lemma safe_map_keys : forall m s, MInv m s ->
+    safe (map_keys m) s (fun r s' =>
+      MInv (fst (fst r)) s' /\ fst (fst r) = m /\
+      m_spec (morder m) KKeys (snd (fst r)) (snd r) (morder m) /\
+      (snd (fst r) = Err ENOMEM -> fail_at s' = None)).
+  Proof.
+    intros m s HM. pose proof HM as [HI [HF [Hcnt Hord]]]. unfold map_keys. pose proof HI as [Hw _].
+    apply safe_bind. eapply safe_weaken; [apply safe_malloc; exact Hw|].
+    intros [b|] s1 [Hw1 H1].
+    - destruct H1 as [Hb [Hnb [Hids1 _]]].
+      apply safe_bind. exists tt, s1. split.
+      { unfold check_range, range_ok. rewrite (Permutation_length Hord). unfold all_keys. rewrite map_length, <- Hcnt.
+        replace (0 <=? 0) with true by reflexivity.
+        replace (0 <=? Z.of_nat (hcount (mtab m) + 1)) with true by (symmetry; apply Z.leb_le; lia).
+        replace (0 + Z.of_nat (hcount (mtab m) + 1) <=? Z.of_nat (hcount (mtab m) + 1)) with true by (symmetry; apply Z.leb_le; lia).
+        rewrite orb_true_r. reflexivity. }
+      apply safe_bind. eapply safe_weaken; [apply safe_free_fa; [exact Hw1 | rewrite Hids1; left; reflexivity]|].
+      intros u s2 [Hw2 [_ Hi2]]. apply safe_ret; cbn [fst snd].
+      split; [|split; [reflexivity|]; split; [split; [reflexivity|]; left; auto | discriminate]].
+      split; [|split; [exact HF | split; [exact Hcnt | exact Hord]]].
+      eapply HInvP_ids_eq; [exact HI | exact Hw2|]. intro x; rewrite Hi2, Hids1; simpl.
+      split; [intros [[Hx|Hx] Hne]; [congruence | exact Hx] | intro Hx; split; [right; exact Hx | intro; subst x; contradiction]].
+    - destruct H1 as [Hids1 [_ [_ Hfa]]]. apply safe_ret; cbn [fst snd].
+      split; [|split; [reflexivity|]; split; [split; [reflexivity|]; right; auto | intros _; exact Hfa]].
+      split; [|split; [exact HF | split; [exact Hcnt | exact Hord]]].
+      eapply HInvP_ids_eq; [exact HI | exact Hw1 | intro x; rewrite Hids1; tauto].
+  Qed.
+
+  (* one call, arbitrary state satisfying the invariant (so: every fault point) *)
+  Lemma safe_mstep : forall m s op, MInv m s ->
+    safe (mstep HFixed m (mop_of op)) s (fun r s' =>
+      MInv (fst (fst r)) s' /\ mblk (fst (fst r)) = mblk m /\
+      m_spec (morder m) op (snd (fst r)) (snd r) (morder (fst (fst r))) /\
+      (snd (fst r) = Err ENOMEM -> fail_at s' = None /\ same (all_keys (mtab (fst (fst r)))) (all_keys (mtab m)))).
+  Proof.
+    intros m s [k|k|k|] HM; simpl.
+    - apply safe_bind. eapply safe_weaken; [apply (safe_map_subtree m s true k HM)|].
+      intros [m' o] s' [HM' [Hb [Hsp Hen]]]. apply safe_ret; cbn [fst snd] in *. auto.
+    - apply safe_bind. eapply safe_weaken; [apply (safe_map_subtree m s false k HM)|].
+      intros [m' o] s' [HM' [Hb [Hsp Hen]]]. apply safe_ret; cbn [fst snd] in *. auto.
+    - apply safe_bind. eapply safe_weaken; [apply (safe_map_delete m s k HM)|].
+      intros [m' o] s' [HM' [Hb Hsp]]. apply safe_ret; cbn [fst snd] in *.
+      split; [assumption|]. split; [assumption|]. split; [assumption|].
+      intro He. exfalso. destruct Hsp as [_ [[_ [Ho _]]|[_ [Ho _]]]]; rewrite Ho in He; discriminate.
+    - eapply safe_weaken; [apply (safe_map_keys m s HM)|].
+      intros [[m' o] ks] s' [HM' [Hm [Hsp Hen]]]; cbn [fst snd] in *. subst m'.
+      split; [assumption|]. split; [reflexivity|]. split; [assumption|]. intro He. split; [auto | apply same_refl].
+  Qed.
+
+  Fixpoint m_spec_run (ord : list nat) (ops : list kop) (os : list (outcome * list nat)) : Prop :=
+    match ops, os with
+    | [], [] => True
+    | op :: ops', (o, ks) :: os' => exists ord', m_spec ord op o ks ord' /\ m_spec_run ord' ops' os'
+    | _, _ => False
+    end.
+
+  Lemma safe_mrun : forall ops m s, MInv m s ->
+    safe (mrun HFixed m (map mop_of ops)) s (fun r s' =>
+      MInv (fst r) s' /\ mblk (fst r) = mblk m /\ m_spec_run (morder m) ops (snd r)).
+  Proof.
+    induction ops as [|op ops IH]; intros m s HM; simpl.
+    - apply safe_ret; cbn [fst snd]; auto.
+    - apply safe_bind. eapply safe_weaken; [apply safe_mstep; exact HM|].
+      intros [[m' o] ks] s' [HM' [Hb [Hsp _]]]; cbn [fst snd] in *.
+      apply safe_bind. eapply safe_weaken; [apply IH; exact HM'|].
+      intros [m'' os] s'' [HM'' [Hb' Hrun]]; cbn [fst snd] in *. apply safe_ret; cbn [fst snd].
+      split; [assumption|]. split; [congruence|]. exists (morder m'); auto.
+  Qed.
+
+  (* vnaproperty_free of the map *)
+  Lemma safe_map_free : forall m s, MInv m s -> safe (map_free m) s (fun _ s' => live s' = []).
+  Proof.
+    intros m s HM. pose proof HM as [HI [[HG [Hd Hc]] [Hcnt Hord]]]. unfold map_free.
+    pose proof (MInv_order_nodup m s HM) as Hondup.
+    destruct HI as [Hw [Hnd [Hiff Hv]]]. unfold hownedP in Hnd, Hiff. simpl in Hnd, Hiff.
+    inversion Hnd as [|? ? Hmb Hnd1]; subst. destruct (NoDup_app_inv _ _ Hnd1) as [Hvn [Hnb Hdv]].
+    apply safe_bind. eapply safe_weaken; [apply (safe_free_order (all_nodes (mtab m)) (morder m) s Hw Hondup)|].
+    - intros k Hk. eapply Permutation_in; [exact Hord | exact Hk].
+    - exact Hd.
+    - exact Hnb.
+    - intros n x Hn _ Hx. apply Hiff. right. apply in_or_app; right. eapply nodes_blocks_in; eauto.
+    - intros u s1 [Hw1 Hi1].
+      assert (Hi1' : forall x, In x (ids s1) <-> x = mblk m \/ In x (vecl (hblk (mtab m)))).
+      { intro x; rewrite Hi1, Hiff, in_app_iff. split.
+        - intros [[Hx|[Hx|Hx]] Hno]; [left; auto | right; auto |].
+          exfalso. apply Hno. unfold nodes_blocks in Hx. apply in_flat_map in Hx. destruct Hx as [n [Hn Hx]].
+          exists n. split; [exact Hn|]. split; [|exact Hx].
+          eapply Permutation_in; [apply Permutation_sym; exact Hord | unfold all_keys; apply in_map; exact Hn].
+        - intros [Hx|Hx].
+          + split; [left; auto|]. intros [n [Hn [_ Hxn]]]. apply Hmb. rewrite <- Hx. apply in_or_app; right. eapply nodes_blocks_in; eauto.
+          + split; [right; left; exact Hx|]. intros [n [Hn [_ Hxn]]]. eapply Hdv; [exact Hx | eapply nodes_blocks_in; eauto]. }
+      apply safe_bind.
+      assert (Hlast : forall s2, wf s2 -> (forall x, In x (ids s2) <-> x = mblk m) ->
+                safe (free (Some (mblk m))) s2 (fun _ s' => live s' = [])).
+      { intros s2 Hw2 Hi2. eapply safe_weaken; [apply safe_free; [assumption | apply Hi2; reflexivity]|].
+        intros u3 s3 [Hw3 [_ Hi3]]. apply ids_nil_live_nil. intros x Hx; apply Hi3 in Hx. destruct Hx as [Hx Hne]; apply Hi2 in Hx; contradiction. }
+      destruct (hblk (mtab m)) as [b|] eqn:Hblk; simpl in *.
+      + eapply safe_weaken; [apply safe_free; [assumption | apply Hi1'; right; left; reflexivity]|].
+        intros u2 s2 [Hw2 [_ Hi2]]. apply Hlast; [assumption|].
+        intro x; rewrite Hi2, Hi1'. split; [intros [[Hx|[Hx|[]]] Hne]; [auto | congruence] | intro Hx; split; [left; exact Hx|]].
+        intro He. apply Hmb. left. congruence.
+      + exists tt, s1. split; [reflexivity|]. apply Hlast; [assumption|]. intro x; rewrite Hi1'. tauto.
+  Qed.
+
+  Lemma mhistory_safe : forall ops k,
+    safe (mhistory HFixed (map mop_of ops)) (start k) (fun os s' =>
+      live s' = [] /\ ((k = Some O /\ os = []) \/ m_spec_run [] ops os)).
+  Proof.
+    intros ops k; unfold mhistory, map_new.
+    apply safe_bind. apply safe_bind. eapply safe_weaken; [apply safe_malloc; apply wf_start|].
+    intros [b|] s1 [Hw1 H1].
+    - destruct H1 as [Hb [Hnb [Hids Hf]]]. apply safe_ret.
+      assert (HM : MInv (mkM b (mkH None 0 []) []) s1).
+      { split; [|split; [|split]]; simpl.
+        - unfold HInv, HInvP, hownedP, all_nodes, halloc; simpl. split; [assumption|]. split; [repeat constructor; simpl; tauto|].
+          split; [intro x; rewrite Hids; simpl; tauto | lia].
+        - split; [|split].
+          + intros j Hj. unfold halloc in Hj; simpl in Hj; lia.
+          + unfold distinct, all_nodes; simpl; constructor.
+          + intros n Hn. unfold all_nodes in Hn; simpl in Hn; destruct Hn.
+        - reflexivity.
+        - apply Permutation_refl. }
+      apply safe_bind. eapply safe_weaken; [apply safe_mrun; exact HM|].
+      intros [m' os] s2 [HM2 [_ Hrun]]; cbn [fst snd] in *.
+      apply safe_bind. eapply safe_weaken; [apply safe_map_free; exact HM2|].
+      intros u s3 H3. apply safe_ret. split; [assumption | right; exact Hrun].
+    - destruct H1 as [Hids [_ [Hfa _]]]. apply safe_ret. apply safe_ret. split.
+      + apply ids_nil_live_nil. rewrite Hids; simpl; tauto.
+      + left. split; [exact Hfa | reflexivity].
+  Qed.
+
+  Theorem map_no_fault_lemma : forall ops k f, mhistory HFixed (map mop_of ops) (start k) <> Fault f.
+  Proof. intros ops k f H. destruct (mhistory_safe ops k) as [a [s' [He _]]]. rewrite He in H; discriminate. Qed.
+
+  Theorem map_no_leak_lemma : forall ops k os s', mhistory HFixed (map mop_of ops) (start k) = Ok (os, s') -> live s' = [].
+  Proof. intros ops k os s' H. destruct (mhistory_safe ops k) as [a [s2 [He [Hl _]]]]. rewrite He in H; inversion H; subst; assumption. Qed.
+
+  Theorem map_lookup_exact_lemma : forall ops k os s', mhistory HFixed (map mop_of ops) (start k) = Ok (os, s') ->
+    (k = Some O /\ os = []) \/ m_spec_run [] ops os.
+  Proof. intros ops k os s' H. destruct (mhistory_safe ops k) as [a [s2 [He [_ Hr]]]]. rewrite He in H; inversion H; subst; assumption. Qed.
+
+  (* the fault-free run is a function of the op list *)
+  Fixpoint m_fun (ord : list nat) (ops : list kop) : list (outcome * list nat) :=
+    match ops with
+    | [] => []
+    | KSet k :: r => if memb k ord then (Done, []) :: m_fun ord r else (Done, []) :: m_fun (ord ++ [k]) r
+    | KGet k :: r => ((if memb k ord then Done else Err ENOENT), []) :: m_fun ord r
+    | KDel k :: r => if memb k ord then (Done, []) :: m_fun (remove Nat.eq_dec k ord) r else (Err ENOENT, []) :: m_fun ord r
+    | KKeys :: r => (Done, ord) :: m_fun ord r
+    end.
+
+  Lemma memb_false : forall k ks, ~ In k ks -> memb k ks = false.
+  Proof. intros k ks H. destruct (memb k ks) eqn:Hm; auto. apply memb_in in Hm; contradiction. Qed.
+
+  Lemma m_spec_run_fun : forall ops ord os, m_spec_run ord ops os ->
+    Forall (fun o => fst o <> Err ENOMEM) os -> os = m_fun ord ops.
+  Proof.
+    induction ops as [|op ops IH]; intros ord os Hrun Hne; destruct os as [|[o ks] os]; simpl in Hrun; try contradiction; [reflexivity|].
+    destruct Hrun as [ord' [Hsp Hrun]]. inversion Hne as [|? ? Ho Hos]; subst. simpl in Ho.
+    destruct op as [k|k|k|]; simpl in *.
+    - destruct Hsp as [Hks [[Ho' _]|[[Hin [Ho' Hord]]|[Hnin [Ho' Hord]]]]]; [contradiction | |]; subst.
+      + rewrite (proj2 (memb_in k ord) Hin). f_equal. apply IH; auto.
+      + rewrite (memb_false k ord Hnin). f_equal. apply IH; auto.
+    - destruct Hsp as [Hks [Hord [Ho'|[[Hin Ho']|[Hnin Ho']]]]]; [contradiction | |]; subst.
+      + rewrite (proj2 (memb_in k ord) Hin). f_equal. apply IH; auto.
+      + rewrite (memb_false k ord Hnin). f_equal. apply IH; auto.
+    - destruct Hsp as [Hks [[Hin [Ho' Hord]]|[Hnin [Ho' Hord]]]]; subst.
+      + rewrite (proj2 (memb_in k ord) Hin). f_equal. apply IH; auto.
+      + rewrite (memb_false k ord Hnin). f_equal. apply IH; auto.
+    - destruct Hsp as [Hord [[Ho' Hks]|[Ho' _]]]; [|contradiction]. subst. f_equal. apply IH; auto.
+  Qed.
+
+  Lemma NF_map_subtree : forall v m add k hv, NF (map_subtree v m add k hv) (fun r => snd r <> Err ENOMEM).
+  Proof.
+    intros v m add k hv; unfold map_subtree.
+    eapply NF_bind with (P := fun r => fst r = true).
+    { destruct (_ <=? _)%nat; [apply NF_expand | apply NF_ret; reflexivity]. }
+    intros [ok h] Hok; simpl in Hok; subst ok; simpl.
+    eapply NF_bind; [apply NF_table_lookup|]. intros [n|] _; [apply NF_ret; discriminate|].
+    destruct add; simpl; [|apply NF_ret; discriminate].
+    eapply NF_bind; [apply NF_malloc|]. intros [eb|] He; [|contradiction].
+    eapply NF_bind; [apply NF_malloc|]. intros [sb|] Hs; [|contradiction].
+    eapply NF_bind; [apply NF_table_insert | intros h1 _; apply NF_ret; discriminate].
+  Qed.
+
+  Lemma NF_map_delete : forall m k hv, NF (map_delete m k hv) (fun r => snd r <> Err ENOMEM).
+  Proof.
+    intros m k hv; unfold map_delete. destruct (_ =? _)%nat; [apply NF_ret; discriminate|].
+    eapply NF_bind; [apply NF_table_lookup|]. intros [n|] _; [|apply NF_ret; discriminate].
+    eapply NF_bind; [apply NF_free_blocks | intros _ _; apply NF_ret; discriminate].
+  Qed.
+
+  Lemma NF_map_keys : forall m, NF (map_keys m) (fun r => snd (fst r) <> Err ENOMEM).
+  Proof.
+    intro m; unfold map_keys. eapply NF_bind; [apply NF_malloc|]. intros [b|] Hb; [|contradiction].
+    eapply NF_bind; [apply NF_check_range|]. intros _ _.
+    eapply NF_bind; [apply NF_free | intros _ _; apply NF_ret; discriminate].
+  Qed.
+
+  Lemma NF_mstep : forall v m op, NF (mstep v m op) (fun r => snd (fst r) <> Err ENOMEM).
+  Proof.
+    intros v m [k hv|k hv|k hv|]; simpl.
+    - eapply NF_bind; [apply NF_map_subtree | intros r Hr; apply NF_ret; exact Hr].
+    - eapply NF_bind; [apply NF_map_subtree | intros r Hr; apply NF_ret; exact Hr].
+    - eapply NF_bind; [apply NF_map_delete | intros r Hr; apply NF_ret; exact Hr].
+    - apply NF_map_keys.
+  Qed.
+
+  Lemma NF_mrun : forall v ops m, NF (mrun v m ops) (fun r => Forall (fun o => fst o <> Err ENOMEM) (snd r)).
+  Proof.
+    intros v ops; induction ops as [|op rest IH]; intro m; simpl; [apply NF_ret; constructor|].
+    eapply NF_bind; [apply NF_mstep|]. intros [[m' o] ks] Ho; simpl in Ho.
+    eapply NF_bind; [apply IH|]. intros [m'' os] Hos; simpl in Hos. apply NF_ret; simpl. constructor; assumption.
+  Qed.
+
+  Lemma NF_free_order : forall order nodes, NF (free_order order nodes) (fun _ => True).
+  Proof.
+    induction order as [|k t IH]; intro nodes; simpl; [apply NF_ret; exact I|].
+    destruct (find _ nodes); [|apply NF_fail]. eapply NF_bind; [apply NF_free_blocks | intros _ _; apply IH].
+  Qed.
+
+  Lemma NF_mhistory : forall v ops, NF (mhistory v ops) (fun os => Forall (fun o => fst o <> Err ENOMEM) os).
+  Proof.
+    intros v ops; unfold mhistory, map_new.
+    eapply NF_bind with (P := fun r => r <> None).
+    { eapply NF_bind; [apply NF_malloc|]. intros [b|] Hb; [|contradiction]. apply NF_ret; discriminate. }
+    intros [m|] Hm; [|contradiction].
+    eapply NF_bind; [apply NF_mrun|]. intros [m' os] Hos; simpl in Hos.
+    eapply NF_bind; [|intros _ _; apply NF_ret; exact Hos].
+    unfold map_free. eapply NF_bind; [apply NF_free_order|]. intros _ _.
+    eapply NF_bind; [apply NF_free | intros _ _; apply NF_free].
+  Qed.
+
+  Theorem map_fault_free_exact_lemma : forall ops os s',
+    mhistory HFixed (map mop_of ops) (start None) = Ok (os, s') -> os = m_fun [] ops.
+  Proof.
+    intros ops os s' H. destruct (NF_mhistory HFixed _ (start None) os s' eq_refl H) as [_ Hne].
+    destruct (map_lookup_exact_lemma ops None os s' H) as [[Hk _]|Hrun]; [discriminate|].
+    apply m_spec_run_fun; assumption.
+  Qed.
+
+  Lemma map_fault_history_lemma : forall ops k os s',
+    mhistory HFixed (map mop_of ops) (start (Some k)) = Ok (os, s') -> live s' = [].
+  Proof. intros ops k; exact (map_no_leak_lemma ops (Some k)). Qed.
+
+  Lemma map_fault_history_no_fault_lemma : forall ops k f,
+    mhistory HFixed (map mop_of ops) (start (Some k)) <> Fault f.
+  Proof. intros ops k; exact (map_no_fault_lemma ops (Some k)). Qed.
+
+  (* one call with any fault point: clean failure, key set and order unchanged; the retry succeeds *)
+  Theorem map_fault_clean_lemma : forall op m s, MInv m s ->
+    exists m' o ks s', mstep HFixed m (mop_of op) s = Ok ((m', o, ks), s') /\ MInv m' s' /\
+      m_spec (morder m) op o ks (morder m') /\
+      (o = Err ENOMEM -> fail_at s' = None /\ morder m' = morder m /\ same (all_keys (mtab m')) (all_keys (mtab m))).
+  Proof.
+    intros op m s HM. destruct (safe_mstep m s op HM) as [[[m' o] ks] [s' [He [HM' [_ [Hsp Hen]]]]]]; cbn [fst snd] in *.
+    exists m', o, ks, s'. split; [assumption|]. split; [assumption|]. split; [assumption|].
+    intro Ho. destruct (Hen Ho) as [Hfa Hk]. split; [assumption|]. split; [|assumption].
+    subst o. destruct op as [k|k|k|]; simpl in Hsp.
+    - destruct Hsp as [_ [[_ H]|[[_ [H _]]|[_ [H _]]]]]; [assumption | discriminate | discriminate].
+    - destruct Hsp as [_ [H _]]; assumption.
+    - destruct Hsp as [_ [[_ [H _]]|[_ [H _]]]]; discriminate.
+    - destruct Hsp as [H _]; assumption.
+  Qed.
+
+  Theorem map_retry_lemma : forall m s k m' s', MInv m s ->
+    map_subtree HFixed m true k (hf k) s = Ok ((m', Err ENOMEM), s') ->
+    MInv m' s' /\ morder m' = morder m /\
+    exists m'' s'', map_subtree HFixed m' true k (hf k) s' = Ok ((m'', Done), s'') /\ MInv m'' s'' /\
+      ((In k (morder m) /\ morder m'' = morder m) \/ (~ In k (morder m) /\ morder m'' = morder m ++ [k])).
+  Proof.
+    intros m s k m' s' HM H1.
+    destruct (safe_map_subtree m s true k HM) as [[m1 o1] [s1 [He [HM1 [_ [Hsp1 Hen1]]]]]]. rewrite He in H1; inversion H1; subst; clear H1.
+    cbn [fst snd] in *. destruct (Hen1 eq_refl) as [Hfa _].
+    assert (Hord : morder m' = morder m).
+    { destruct Hsp1 as [_ [[_ H]|[[_ [H _]]|[_ [H _]]]]]; [assumption | discriminate | discriminate]. }
+    split; [assumption|]. split; [assumption|].
+    destruct (safe_map_subtree m' s' true k HM1) as [[m2 o2] [s2 [He2 [HM2 [_ [Hsp2 _]]]]]]. cbn [fst snd] in *.
+    destruct (NF_map_subtree HFixed m' true k (hf k) s' (m2, o2) s2 Hfa He2) as [_ Hne]; cbn [snd] in Hne.
+    rewrite Hord in Hsp2.
+    destruct Hsp2 as [_ [[Ho _]|[[Hin [Ho Ho2]]|[Hnin [Ho Ho2]]]]]; [contradiction | |]; subst o2; exists m2, s2; auto.
+  Qed.
+End MapProofs.
+
+(* non-vacuity: a reachable map whose table has grown from 11 to 33 buckets, with colliding keys *)
+Definition hf_demo (k : nat) : N := if (k <=? 1)%nat then 0%N else if (k =? 2)%nat then 33%N else N.of_nat k.
+
+Example MInv_satisfiable : exists m s, MInv hf_demo m s /\ halloc (mtab m) = 33%nat /\ hcount (mtab m) = 21%nat /\
+  nth 0 (map (map nkey) (hbuckets (mtab m))) [] = [0; 2]%nat /\ length (live s) = 44%nat.
+Proof.
+  assert (HM0 : MInv hf_demo (mkM 0%nat (mkH None 0 []) []) (mkA None [(0%nat, 56)] 1)).
+  { split; [|split; [|split]]; simpl.
+    - unfold HInv, HInvP, hownedP, all_nodes, halloc, wf, ids; simpl.
+      split; [split; [repeat constructor; simpl; tauto | intros x [Hx|[]]; subst; lia]|]. split; [repeat constructor; simpl; tauto|].
+      split; [intro x; tauto | lia].
+    - split; [|split].
+      + intros j Hj. unfold halloc in Hj; simpl in Hj; lia.
+      + unfold distinct, all_nodes; simpl; constructor.
+      + intros n Hn. unfold all_nodes in Hn; simpl in Hn; destruct Hn.
+    - reflexivity.
+    - apply Permutation_refl. }
+  destruct (safe_mrun hf_demo (map KSet (seq 0 22) ++ [KDel 1; KGet 0; KKeys]) _ _ HM0) as [[m' os] [s' [He [HM' _]]]].
+  vm_compute in He. inversion He; subst. eexists; eexists; split; [exact HM'|]. vm_compute. auto.
+Qed.
+
+(* bug shapes: insertion at the chain head / rehash pushing on the chain head hide stored keys *)
+Theorem map_head_insert_refuted_lemma : exists ops os s,
+  mhistory HHeadInsert (map (mop_of hf_demo) ops) (start None) = Ok (os, s) /\ os <> m_fun [] ops.
+Proof. exists [KSet 0%nat; KSet 1%nat; KGet 0%nat]; eexists; eexists; split; [vm_compute; reflexivity | vm_compute; discriminate]. Qed.
+
+Theorem map_rehash_head_refuted_lemma : exists ops os s,
+  mhistory HRehashHead (map (mop_of hf_demo) ops) (start None) = Ok (os, s) /\ os <> m_fun [] ops.
+Proof.
+  exists (map KSet (seq 0 22) ++ [KGet 0%nat]); eexists; eexists; split; [vm_compute; reflexivity | vm_compute; discriminate].
 Qed.
